@@ -12,1023 +12,2644 @@ Definition show_fres (r : fres) : string :=
   end.
 Definition check (rs : list rune) : string := digest (show_fres (format_res rs)).
 Definition full (rs : list rune) : string := show_fres (format_res rs).
-Eval vm_compute in ("<<<M180>>>" ++ check (runes_of_ascii "// @lengthOf(
-MetaData
-zchar {string
-o
-`crlf
-line`	, char[]
-pack // c
-`crlf
-line` , char[]
-    // trailing space 
-    Foo,
-} options { stringy =
-""`tick`""
-    } packet leftPad {
-    packetx
-    @lengthOf(  roots), @lengthOf(int
-// a // b
-// " ++ [27880; 37322]%N ++ runes_of_ascii "
-) @calculatedFrom( ""a\""b"" )
-    @calculatedFrom( """ ++ [28040; 24687]%N ++ runes_of_ascii """ ) int32
-MetaDataX `" ++ [233]%N ++ runes_of_ascii "` // " ++ [27880; 37322]%N ++ runes_of_ascii "
-, u8 int// `tick` ""quote"" 'q'
-,
-@lengthOf( options1
-    ) repeat u8 BodyLength// `tick` ""quote"" 'q'
-,
-    @tag( 1
-    ) Logon
-    ,repeat int32 u8x
-`say ""hi""`, match int
-as
-charz	{ ""abc"" : roots } ,string_ {zchar	@lengthOf( calculatedFrom ) ``
-,
-} , } root packet lengthOf {
-@tag( 4294967296 )A // packet A { u8 x, }
-@lengthOf( i64_ )`doc` , body@lengthOf( lengthOf ) `it's`
-    // packet A { u8 x, }
-    , zchar[ 10 ] // " ++ [27880; 37322]%N ++ runes_of_ascii "
-i8i8, @calculatedFrom( """ ++ [233]%N ++ runes_of_ascii "t" ++ [233]%N ++ runes_of_ascii """	) i64 int `u8 x,`,	repeat trueish { string  options1 , zchar[
-    0123456789 ]_x
-`tab	here` ,
-Pad
-    { repeat string repeatCount , repeat string _x , Packet
-@lengthOf( roots ) `
-`
-    , string crc@calculatedFrom(""abc""),
-} , match i8i8 as  string_ {// c
-[ ""it's""
-]
-:
-options1 ,
-//
-// @lengthOf(
-""a	b"":
-string_ , [
-""a	b""
-, 00 ] //	t
-: // `tick` ""quote"" 'q'
-metadata  ,
-    0 :	o
-    ""\" ++ [233]%N ++ runes_of_ascii """
-    : Pad // packet A { u8 x, }
-,}
-,} , char[7 ]  i8i8 `tab	here`
-    , roots { repeat uint8 _x`tab	here`,	}  ,
-    repeat int64 f32a	,
-match asx
-as calculatedFrom { 65535 : asx
-// trailing space 
-//x
-, [ 1
-] :  uint8x,
-42 :x
-[ ""x y"" , ""1"",""`tick`"" , ""1"" ,
-""1""
-,	""a	b"" ]
-    :
-    MetaDataX }
-,} MetaData
-chars
-    { }")).
-Eval vm_compute in ("<<<M213>>>" ++ check (runes_of_ascii "packet a1
-{
-@lengthOf(	f32a	) repeat u64	string_
-    ,
-    @calculatedFrom( """"
-    ) repeat	i16 tag `u8 x,` , @tag( 42 ) @calculatedFrom(	""a\\"")  @calculatedFrom( ""\" ++ [233]%N ++ runes_of_ascii """
-) zchar[ 10
-] Foo , char[42
-    //	t
-    ]
-    body `// not a comment` , }MetaData roots{ uint64
-Z9_ `{ , }`,
-char[]charz `doc` , uint16 u128 `u8 x,` , zchar[ 4294967296 // trailing space 
-]
-    len
-,
-float32
-stringy
-,
-} packet
-Z9_	{ @leftPad ('\x00')
-    @tag(42 ) @tag( 7)
-    roots x
-    , @lengthOf( int ) crc zchar
-//	t
-//
-, } packet string_ { u8 Pad
-// c
-// " ++ [128512]%N ++ runes_of_ascii " emoji
-, u64 chars
-,
-    @lengthOf(	Logon
-)
-    pack
-,
-@leftPad (
-    ) @rightPad//
-(
-    ' '	)@calculatedFrom(""a	b"")
-    i8 x `crlf
-line`
-    , char[ 0123456789 // @lengthOf(
-]options1 @calculatedFrom( ""{,}"" )
-`two words` ,uint64 charz `doc` , char[] u128
-// packet A { u8 x, }
-//	t
-,
-    @calculatedFrom( ""1"" ) repeat matchKey
-    {
-repeat int o// c
-, } ,
-@lengthOf(calculatedFrom
-    )@rightPad ( '\x00')
-@tag( 00 )
-MetaDataX { uint32 BodyLength, } ,
-// trailing space 
-//
-} packet lengthOf {  @calculatedFrom(	""" ++ [28040; 24687]%N ++ runes_of_ascii """
-    )
-// trailing space 
-// " ++ [27880; 37322]%N ++ runes_of_ascii "
-repeat	repeatCount { repeat char[ 7]	pack `// not a comment`, }
-, }
+Eval vm_compute in ("<<<M3584>>>" ++ check (runes_of_ascii "options {
+    LittleEndian = true;
+    ArrayPrefixLenType = u8;
+    FixedStringPadChar = '0';
+    JavaPackage = ""co\
+m.example.msg"";
+    GoPackage = ""ms\
+g"";
+    GoModule = ""example.com/msg"";
+}
+MetaData Meta {
+    u32 SeqNum `sequence number`,
+    char[8] Symbol `symbol`,
+    zchar[5] ZSym `z symbol`,
+    string Note,
+    Symbol AltSymbol `alias of symbol`,
+    f64 Price,
+}
+packet Inner {
+    u8 a,
+    i16 b,
+    string c,
+}
+packet Inner2 {
+    u8 a2,
+    char[3] c2,
+}
+packet Logon {
+    u8 x,
+    string user,
+    repeat u16 codes,
+}
+packet Logout {
+    u16 reason,
+}
+packet Empty {
+}
+root packet Msg {
+    u8 su8,
+    uint8 luint8,
+    u16 su16,
+    uint16 luint16,
+    u32 su32,
+    uint32 luint32,
+    u64 su64,
+    uint64 luint64,
+    i8 si8,
+    int8 lint8,
+    i16 si16,
+    int16 lint16,
+    i32 si32,
+    int32 lint32,
+    i64 si64,
+    int64 lint64,
+    f32 sf32,
+    float32 lfloat32,
+    f64 sf64,
+    float64 lfloat64,
+    char[6] fsplain,
+    @leftPad('0') char[4] fs0,
+    @rightPad('0') char[5] fs1,
+    @leftPad(' ') char[6] fs2,
+    @rightPad(' ') char[7] fs3,
+    @leftPad('\x00') char[8] fs4,
+    @rightPad('\x00') char[9] fs5,
+    @leftPad() char[10] fs6,
+    @rightPad() char[11] fs7,
+    zchar[7] fz,
+    @leftPad('0') zchar[3] fzl0,
+    string s1 `doc`,
+    char[] s2,
+    Inner,
+    Sub {
+        u8 q,
+        string w,
+        Deep {
+            u16 z,
+            repeat i32 zs,
+        },
+    },
+    repeat u8 ru8,
+    repeat u16 ru16,
+    repeat u32 ru32,
+    repeat u64 ru64,
+    repeat i8 ri8,
+    repeat i16 ri16,
+    repeat i32 ri32,
+    repeat i64 ri64,
+    repeat f32 rf32,
+    repeat f64 rf64,
+    repeat string rstr,
+    repeat char[] rstr2,
+    repeat char[3] rfs,
+    repeat zchar[3] rfz,
+    repeat Inner2,
+    repeat Grp {
+        u8 k,
+        char[2] v,
+    },
+    SeqNum,
+    SeqNum seq2,
+    repeat SeqNum seqs,
+    Symbol,
+    AltSymbol alt,
+    ZSym,
+    Note,
+    repeat Symbol syms,
+    Price px,
+    u16 MsgType,
+    u32 BodyLen @lengthOf(Body),
+    match MsgType as Body {
+        1 : Logon,
+        [2, 3] : Logout,
+        7 : Logon,
+        9 : Empty,
+    },
+    u32 Checksum @calculatedFrom(""CRC32""),
+}
 ")).
-Eval vm_compute in ("<<<M248>>>" ++ check (runes_of_ascii "packet
-Packet
-    {
-} packet repeatCount{@tag(	4294967296
-    ) @lengthOf(A  ) @lengthOf( float ) rootA ,
-@tag(0123456789  )
-Header
-    `// not a comment`,  matchKey
-    f32a
-    , Pad, repeat float32	uint8x
-    `" ++ [233]%N ++ runes_of_ascii "` ,@leftPad
-    ('\x00' )	repeat
-    char[3]
-tag `
-`, repeat
-pack {
-repeat x { repeat f64 len ,
-    i64_ len, }
+Eval vm_compute in ("<<<M505>>>" ++ check (runes_of_ascii "options {
+Pad ='0'o = true ; // c
+x = false } root packet trueish { @tag( 4294967296) repeat
+// @lengthOf(
+// packet A { u8 x, }
+u32
+/// triple
+//x
+metadata
+, @calculatedFrom(
+    ""CRC32"" )@rightPad ( ) @lengthOf( x_y_z	) falsey
+{ i8
+i8i8  `it's` ,
+    Header
+{ // trailing space 
+repeat calculatedFrom {	calculatedFrom `{ , }` ,
+} , }
+    , repeat //
+Pad,}
     ,
-repeatCount
-    // `tick` ""quote"" 'q'
-    @lengthOf(uint8x
-    ) , match	zchar  as a1 {
+x_y_z u8x`// not a comment`
+, lengthOf tag , // `tick` ""quote"" 'q'
+repeat zchar[ 7 ]
+options1,f32 _x  `// not a comment` ,
+    match  calculatedFrom as o
+{ [ 0 ,
+0 ] :uint8x
+,[ ""`tick`""] : options1//	t
+,[7 , 255 ,""" ++ [233]%N ++ runes_of_ascii "t" ++ [233]%N ++ runes_of_ascii """ ,"""" ,""\n""
+,// 50% %s
+65535
+] :
+options1 ""// no comment"": pack [
 // a // b
 // packet A { u8 x, }
-3: u ,
-},// packet A { u8 x, }
-repeat rootA
-{ options1 {
-repeat body u8x `crlf
-line`	, match Z9_ as
-    f32a{007
-:repeatCount ,
-    ""packet""
-: calculatedFrom
-    ,
-    // " ++ [128512]%N ++ runes_of_ascii " emoji
-    10 // `tick` ""quote"" 'q'
-: /// triple
-calculatedFrom
-    ,
-""CRC32""  :	_x , [	""x y""	] : i64_ , ""packet""
-// `tick` ""quote"" 'q'
-// a // b
-:// `tick` ""quote"" 'q'
-MetaDataX
-    ,  }
-// a // b
-// " ++ [27880; 37322]%N ++ runes_of_ascii "
-, } ,
-    //x
-    } , } ,  } MetaData// @lengthOf(
-asx {	u trueish ,chars // c
-f32a `// not a comment`	, float64 u128 , string_ string_ `
-` , }packet crc
-{ }")).
-Eval vm_compute in ("<<<M1889>>>" ++ check (runes_of_ascii "  options	{ LittleEndian
-	= true ;StringPrefixLenType = 
-u32  ; 
-FixedStringPadChar 
-='0'
-	;	}  packet Logout
-	{ 
-repeat
-
-InMsgkind49	{
-    u8
-    pad0
-
+007 , ""packet"", 3 ,
+0123456789
+] : MetaDataX ,} , match string_ as
+    roots	{ [0 ]
+: crc
+    ,}// @lengthOf(
 ,
-	}
-,repeat char[ 
-5]seqNo ,repeat
-
-u8 price 
-,} 
-packet Party
-    { zchar[ 7
-]  Qty
+@lengthOf(
+    // `tick` ""quote"" 'q'
+    asx )roots,@lengthOf( i8i8 ) u , }packet // packet A { u8 x, }
+Logon {
+@calculatedFrom( ""a\\"" ) @tag(
+    1
+) @leftPad
+(
+'\x00'
+    // a // b
+    )roots
+// 50% %s
+// packet A { u8 x, }
+@lengthOf(
+    // packet A { u8 x, }
+    metadata ),
+    zchar[
+4294967296 ] roots `say ""hi""` , match //x
+u//x
+as
+chars{
+    10  : roots , ""`tick`"": o
     ,
+    255
+    :
+    int[ 1
+,
+10 ,""" ++ [128512]%N ++ runes_of_ascii """ ] :
+    Packet ,// trailing space 
+255 :Header [
+""a\\"" , 0123456789 ,
+//	t
+// a // b
+65535
+,// packet A { u8 x, }
+""\" ++ [233]%N ++ runes_of_ascii """ , 65535 ,1,""\n""]: u } ,_x // `tick` ""quote"" 'q'
+@calculatedFrom( """ ++ [128512]%N ++ runes_of_ascii """ ) `100% of %d` ,uint8
+// c
+//
+As/// triple
+@lengthOf( BodyLength )
+    ,}
+options{ u
+= ""a	b"" ; float
+=
+// c
+// packet A { u8 x, }
+zchar[
+    1	]; }
+options
+    {
+//x
+//
+metadata =	""it's"" ;rootA
+    //x
+    =
+'0'
+/// triple
+// packet A { u8 x, }
+A = true
+    ;}
+")).
+Eval vm_compute in ("<<<M358>>>" ++ check (runes_of_ascii "root packet
+repeatCount
+{ zchar[ 7 ]
+leftPad//	t
+, }
+root
+    packet
+Z9_ {
+//
+// a // b
+char[
+4294967296
+    ]
+//x
+//x
+charz,	@calculatedFrom( ""packet"" )Foo @calculatedFrom( """ ++ [128512]%N ++ runes_of_ascii """ ) , // " ++ [27880; 37322]%N ++ runes_of_ascii "
+@rightPad  () repeat zchar[ 42 ]rootA `
+`//x
+, @lengthOf( lengthOf )
+As
+    int `a\` ,
+    match tag as roots
+    { [ ""it's"" ]: o, 3
+    // packet A { u8 x, }
+    : leftPad
+    , 3
+: a1 ,
+    0123456789 : crc
+,3 :
+BodyLength  }, repeat string i64_
+`two words`
+    , @calculatedFrom( ""1"") zchar[ 0123456789
+//	t
+/// triple
+] As @lengthOf( packetx	) `100% of %d` , }  packet matchKey{ } packet As { string u8x
+    // `tick` ""quote"" 'q'
+    , repeat options1
+    zchar
+,
+char[]leftPad`a\` , @rightPad(
+    '0' )@tag( // 50% %s
+4294967296 ) char[ 255] o, f64  Header,@calculatedFrom( ""a	b"" ) // a // b
+zchar[ 7
+    ] // packet A { u8 x, }
+chars,
+    @lengthOf( Header )
+repeat uint64 // " ++ [27880; 37322]%N ++ runes_of_ascii "
+options1 `doc` , u8x	{ repeat
+    char[
+3 ]
+msg_type , //
+repeat options1
+    ,// a // b
+}
+    // trailing space 
+    , _x,
+} packet BodyLength
+{
+@calculatedFrom( ""CRC32""//
+) repeat o Z9_ ,
+    @calculatedFrom(	""" ++ [233]%N ++ runes_of_ascii "t" ++ [233]%N ++ runes_of_ascii """) @calculatedFrom( ""a\\""
+)
+// packet A { u8 x, }
+//
+@tag(
+    // trailing space 
+    42 ) match Header
+    as	tag {
+    ""`tick`"" :
+As
+    , [""\" ++ [233]%N ++ runes_of_ascii """ ] :asx [
+3 ,
+""1""
+, ""\n"" , 007 // 50% %s
+,
+    //
+    ""\n"" ] : options1 ""abc""
+    :
+falsey , 4294967296: metadata , }, @tag(// a // b
+4294967296 ) tag @calculatedFrom( """ ++ [128512]%N ++ runes_of_ascii """ ) ,
+// " ++ [128512]%N ++ runes_of_ascii " emoji
+// `tick` ""quote"" 'q'
+}")).
+Eval vm_compute in ("<<<M1075>>>" ++ check (runes_of_ascii "
+packet
+asx
+    {
+// " ++ [128512]%N ++ runes_of_ascii " emoji
+// `tick` ""quote"" 'q'
+repeat As
+    { int8 A @lengthOf(BodyLength )  ,
+}
+,	matchKey`two words` , repeat Header, roots , @tag( 0//	t
+) // trailing space 
+i16	Logon @lengthOf( options1
+    ), // `tick` ""quote"" 'q'
+@calculatedFrom(
+// 50% %s
+//	t
+""`tick`""  )
+char[ 00 ]
+trueish //	t
+, } packet Logon	{ f64 u8x ,// @lengthOf(
+int16
+leftPad , repeat
+Logon _x	,} packet float{repeat
+    u8x {
+match
+asx
+    as asx
+    { ""a\""b"" : BodyLength// c
+, [	0 ] :len ,""" ++ [28040; 24687]%N ++ runes_of_ascii """ : BodyLength , [	0 ,""\" ++ [233]%N ++ runes_of_ascii """ ]:leftPad// " ++ [27880; 37322]%N ++ runes_of_ascii "
+,
+4294967296 :T ,
+}  , }//	t
+,
+//	t
+// " ++ [128512]%N ++ runes_of_ascii " emoji
+chars
+{ match Pad as
+    zchar
+    {10:  i8i8 [
+    3 , 10]
+    : u8x ,} ,zchar[
+    4294967296 ] stringy@calculatedFrom( ""\" ++ [233]%N ++ runes_of_ascii """ ) ,
+// packet A { u8 x, }
+// " ++ [27880; 37322]%N ++ runes_of_ascii "
+}	, x
+,T
+{
+    match
+    // " ++ [128512]%N ++ runes_of_ascii " emoji
+    rootA as
+    Z9_ { 65535 : pack  , } , repeat i8 zchar , i64 string_ , match
+asx as string_ {255 :u8x ,
+// a // b
+//	t
+""CRC32""
+    : /// triple
+i64_ , } , }  ,@calculatedFrom(
+""""
+) @lengthOf( msg_type
+)
+    repeat calculatedFrom , } MetaData
+    leftPad {char[ 3
+] metadata ,string tag`it's` ,
+Pad crc
+    ,
+u64 int
+,
+} root
+    packet x
+{BodyLength { char[]
+// @lengthOf(
+// `tick` ""quote"" 'q'
+leftPad @calculatedFrom( ""\" ++ [233]%N ++ runes_of_ascii """) , // " ++ [27880; 37322]%N ++ runes_of_ascii "
+char[
+    10 ]  repeatCount , repeat  f64  Z9_ ,
+string
+    Header ,} ,
+    }
+")).
+Eval vm_compute in ("<<<M4217>>>" ++ check (runes_of_ascii "  packet
+    roots {
+
+@rightPad	(
+
+    '\x00' 
+) 
+char[]
+u8x
+@lengthOf( float) `say ""hi""` , repeat
+rootA	{zchar[  42
+] 
+As
+    `say ""hi""` ,
 
     }
-packet Logon
+, }
+options{ A	= true
+
+;
+uint8x =' '
+; 
+}
+    packet
+
+    MetaDataX
+
+    {@calculatedFrom( ""it's""	)	u64
+	lengthOf @calculatedFrom(""a\\"" 
+)
+
+    `it's` // " ++ [27880; 37322]%N ++ runes_of_ascii "
+    	,
+
+string_ {
+
+    metadata	, 
+float64 
+len  //
+`" ++ [28040; 24687; 31867; 22411]%N ++ runes_of_ascii "`
+, repeat
+
+    u`say ""hi""`
+	,
+    u  BodyLength
+    ,	// `tick` ""quote"" 'q'
+    } ,
+
+repeat  T 
+,
+
+    @tag(
+	0123456789 )float // " ++ [27880; 37322]%N ++ runes_of_ascii "
+  	T ,
+    @tag(
+    10 
+)
+@tag( 3) @rightPad 
+(
+
+)
+	repeat 
+body { 
+      // c
+	// c
+	int32
+
+float@calculatedFrom(
+	""abc""
+	)
+    , 
+repeat  uint32
+asx, repeat asx
+
+    { repeat
+
+roots
+	{ int64  _x 
+`100% of %d`
+
+    ,len
+
+    rootA  ``
+
+, }
+,repeat
+	zchar[
+	42
+
+    ] 
+len
+
+    , uint8x
+	i8i8	,f32a@lengthOf(
+
+Logon
+        // packet A { u8 x, }
+	// " ++ [27880; 37322]%N ++ runes_of_ascii "
+
+  ) , }	, 
+}  // packet A { u8 x, }
+      , repeat
+
+Foo
+
+{  Header
+
+    {
+    Header x_y_z, 
+
+/// triple
+zchar 
+    // a // b
+    // c
+	  x_y_z,
+
+    },
+
+}
+
+, 	 // a // b
+      As
 {
-repeat
-	InRef10 {  string 
-price	, 
-char[]  sym	,
-repeat	Logout
-,},
 
     repeat
-    char[ 3
-]count ,repeat 
-Party,	char[] tag7, 
-@rightPad 
-( '0'
-) char[
+u32 Pad `// not a comment` ,
 
-2]clOrdID ,
-    }packet
-Order 
-{
-
-    InTail13 { Party ,  }
-,	repeat  char[
-
-4  ]
-count ,}root
-
-packet 
-Cancel{
-
-Logout
-
-    ,
-@leftPad
-
-('0' ) 
-char[
-	9 
-] msgKind ,
-string
-	lastPx
-	,	string
-
-tag7
-
-    ,
-	zchar[
-1  ]
-
-OrderId
-,
-    repeat	Party
-
-,  u16  sym	, 
-u16 
-Acct
-	@lengthOf(
-Body
-) ,
-match
-
-sym
-    as 
-Body {
-	[
-24 , 
-44	]
-:
-Logout , 
-160 : Order	,91
-
-    :Logon
-
-    ,43:
-Party	,
-    } ,
-u16	Tail
-@calculatedFrom(""CRC32""
-
-)
-	,
-} ")).
-Eval vm_compute in ("<<<M1924>>>" ++ check (runes_of_ascii "MetaData msg_type {
-    string charz,
-    crc u8x,
-    u16 x_y_z `u8 x,`,
-    i64 zchar,
-}
-
-// @lengthOf(
-packet T {
-    @calculatedFrom(""a\\"")
-    uint16 chars @calculatedFrom(""x y"") `
-    `,
-}
-
-packet pack {
-}
-
-options {
-}
-
-packet trueish {
-    // trailing space 
-    @calculatedFrom(""abc"")
-    match chars as lengthOf {
-        [4294967296] : a1,
-        [
-            ""CRC32"", 7, ""1"", 4294967296, ""a\\"",
-            0, 65535, ""{,}""
-        ] : a1,
-    },
-    string lengthOf `" ++ [28040; 24687; 31867; 22411]%N ++ runes_of_ascii "`,
-    @lengthOf(x)
-    match charz as a1 {
-        255 : Logon,
-    },
-    @calculatedFrom(""a	b"")
-    @tag(00)
-    @lengthOf(zchar)
-    body @lengthOf(msg_type),
-    MetaDataX @lengthOf(len) `a\`,
-    @rightPad('\x00')
-    @lengthOf(Packet)
-    string u128 `u8 x,`,
-    packetx @lengthOf(o),
-}
-// @lengthOf(")).
-Eval vm_compute in ("<<<M292>>>" ++ check (runes_of_ascii "packet tag	{/// triple
-@leftPad (  '\x00' )char[ 10 ]
-//	t
 // a // b
-calculatedFrom , @calculatedFrom( ""a\\"")
-    char[ // " ++ [128512]%N ++ runes_of_ascii " emoji
-65535 ] BodyLength
+	}	,
+
+leftPad
+	@calculatedFrom(""a\\"" ) // c
+    ,
+	}
+packet  body {} ")).
+Eval vm_compute in ("<<<M1218>>>" ++ check (runes_of_ascii "// a // b
+root	packet asx // packet A { u8 x, }
+{}
+    root packet asx { @calculatedFrom(
+    // 50% %s
+    ""\n""  ) metadata@lengthOf( T )  , @lengthOf(
+x ) Logon@calculatedFrom(
+    """" ) // 50% %s
+,@calculatedFrom( ""a	b"" ) x_y_z  `a\`
+, stringy { uint64 float  `doc` ,//
+}
+    ,
+    @tag(
+    7 )@lengthOf(MetaDataX ) @tag(10 ) string
+    packetx
+`a\` , int	@calculatedFrom(""it's"" ) , A trueish	, @calculatedFrom(  ""{,}""
+)
+    i32 chars, }
+root packet lengthOf {
+@leftPad ( '0' )
+    @lengthOf( float )@tag(
+    00
+// c
+//	t
+)
+    // `tick` ""quote"" 'q'
+    repeat f32
+    metadata	`` ,	@lengthOf( As// trailing space 
+) // a // b
+float32
+msg_type `line1
+line2` ,@lengthOf(
+repeatCount ) @lengthOf(	Logon ) char[
+    // 50% %s
+    4294967296 ] BodyLength
+, } packet
+    // packet A { u8 x, }
+    packetx {@leftPad (
+)
+Logon// " ++ [27880; 37322]%N ++ runes_of_ascii "
+`u8 x,`
 ,
-match i8i8 as repeatCount  { ""{,}"" : asx
-""" ++ [233]%N ++ runes_of_ascii "t" ++ [233]%N ++ runes_of_ascii """ : lengthOf/// triple
-,  [
-    10 ,""""
-    ] : crc } , @tag( // trailing space 
-10 ) match chars
+match matchKey
 as
-    // " ++ [128512]%N ++ runes_of_ascii " emoji
-    Logon {0:
-crc ,	[ """ ++ [128512]%N ++ runes_of_ascii """  ,
+    MetaDataX {1 : _x , """ ++ [128512]%N ++ runes_of_ascii """ : f32a 00// c
+:x , } ,@calculatedFrom(""a	b"" )
+repeat
+x_y_z	x_y_z , zchar[007
+]calculatedFrom `100% of %d`,
+    packetx // @lengthOf(
+@lengthOf( // a // b
+msg_type
+) `a\`  , char[ // a // b
+007] x_y_z `it's` // trailing space 
+, }
+")).
+Eval vm_compute in ("<<<M517>>>" ++ check (runes_of_ascii "//	t
+root  packet matchKey
+    { repeat i64_ {repeatCount i64_ , f32a{repeat MetaDataX
+{ repeat chars `a\` , zchar[4294967296] // c
+o@calculatedFrom( ""// no comment"" ) `doc`
+    , repeat f32 calculatedFrom, repeat uint16 string_ ,
+    } ,match falsey as	lengthOf {[ """"/// triple
+]: zchar , }
+    , },	repeat// " ++ [27880; 37322]%N ++ runes_of_ascii "
+char
+uint8x`tab	here` , x ,
+} ,	Header , repeat float32 i8i8,
+// a // b
+// " ++ [27880; 37322]%N ++ runes_of_ascii "
+@leftPad ( ' ' ) _x @lengthOf( i64_ ) `100% of %d` ,match
+    falsey as body { 00 :crc ,
+} ,
+@tag( 0123456789)
+    f64 asx `" ++ [233]%N ++ runes_of_ascii "`, @tag(00
+)
+repeat string_ `doc`, @tag( 1
+) match pack as rootA {
+42
+    :o
+7
+:// a // b
+Header
+//
+// c
+[// " ++ [27880; 37322]%N ++ runes_of_ascii "
+""a\""b""/// triple
+]//
+: A, [
+    //x
+    007 ,0 ]:
+    calculatedFrom
+// 50% %s
+//	t
+, 4294967296 :  asx [
+""`tick`""
+,
+    // trailing space 
+    ""x y""] : T}
+    ,// " ++ [27880; 37322]%N ++ runes_of_ascii "
+@tag( 10)chars crc ,
+@calculatedFrom( ""\n"" ) char[ 42] Pad `
+`,
+    }MetaData uint8x {char[ 3 // c
+]o `" ++ [233]%N ++ runes_of_ascii "` ,
+// c
+// a // b
+uint16
+// a // b
+/// triple
+A
+    /// triple
+    , leftPad matchKey,
+char[]
+As`say ""hi""`
+, u32
+string_ , metadata len , // c
+}")).
+Eval vm_compute in ("<<<M1369>>>" ++ check (runes_of_ascii "MetaData crc {}
+root packet
+float { zchar[	1 ] chars
+    ,repeat f32 rootA
+,@rightPad (
+'0') i8 matchKey@calculatedFrom(""a\\"" ) ,
+    char[ 65535 ]
+// trailing space 
+//	t
+lengthOf `say ""hi""` ,
+    tag
+,	@lengthOf( packetx ) match i8i8 as
+    u // " ++ [27880; 37322]%N ++ runes_of_ascii "
+{ 4294967296
+    : rootA , } // " ++ [128512]%N ++ runes_of_ascii " emoji
+, metadata@calculatedFrom(	""{,}"" // a // b
+), } packet MetaDataX
+    { // @lengthOf(
+@lengthOf(
+float)	T
+x`two words` ,
+}packet body { repeat tag , @leftPad
 //x
 // " ++ [128512]%N ++ runes_of_ascii " emoji
-255, ""a\\"" ]:len
-    ,
-// @lengthOf(
-// " ++ [27880; 37322]%N ++ runes_of_ascii "
-} ,
-@calculatedFrom(  ""`tick`""
-    ) @calculatedFrom(""\" ++ [233]%N ++ runes_of_ascii """  ) o matchKey `crlf
-line`  ,
-@calculatedFrom( """ ++ [28040; 24687]%N ++ runes_of_ascii """ ) @lengthOf(leftPad/// triple
-)// packet A { u8 x, }
-@rightPad  (
-'0' ) char[] float@calculatedFrom( ""it's"" )
-    ,@rightPad
 (
-    '0' ) crc x
-    , Foo T ,// @lengthOf(
-zchar[  00 ] charz @lengthOf( tag )
-, }")).
-Eval vm_compute in ("<<<M1602>>>" ++ check (runes_of_ascii "options {
-    string_ = char[7];
-}
-
-options {
-    crc = float64;
-    Logon = false// a // b
-    As = '0'
-    f32a = char[];// packet A { u8 x, }
-    T = 00
-}
-
-root packet x {
-    @calculatedFrom(""1"")
-    repeat zchar[255] string_,
-}
-
-root packet int {
-    @tag(4294967296)
-    char[255] a1,
-    repeat x ``,
-    char[] packetx @lengthOf(uint8x) `u8 x,`,
-    zchar[10] leftPad @calculatedFrom(""a	b""),
-    lengthOf @calculatedFrom(""""),
-    @calculatedFrom(""packet"")
-    i32 matchKey,
-    @rightPad()
-    zchar[1] A,
-    u32 Packet @calculatedFrom(""{,}"") `a\`,// c
-    repeat char[00] Header `say ""hi""`,
-    stringy trueish `// not a comment`,
-}")).
-Eval vm_compute in ("<<<M1921>>>" ++ check (runes_of_ascii "packet chars
-{
-zchar[  10	]x  @lengthOf(repeatCount
-    )
-
-    ,  repeat metadata{string
-    int ,
-
-repeat
-matchKey //x
-  ,
-
-match  leftPad  as
-
-o 
-{
-
-    0
-
-: matchKey
-
-    // " ++ [27880; 37322]%N ++ runes_of_ascii "
+    ) repeat zchar[ 3// @lengthOf(
+] pack , @lengthOf(
+    // c
+    pack  )@calculatedFrom( ""abc"" ) repeat
+    uint8x {string u8x @calculatedFrom(""""	) `a\`
 ,
-[ 0]  :
-
-float
-    0:	packetx	// " ++ [128512]%N ++ runes_of_ascii " emoji
-    	255  :
-
-i64_ , //	t
-      [	0  ,007
-    ,
-""a\\"" , 
     //	t
-    	""" ++ [128512]%N ++ runes_of_ascii """,65535 ,
-255
+    repeat u16
+// c
+// " ++ [128512]%N ++ runes_of_ascii " emoji
+As `tab	here` ,
+    } ,
+repeat// @lengthOf(
+roots { repeat f64 Foo// @lengthOf(
+`line1
+line2` ,  char[] i8i8 @calculatedFrom(	""1"" ) ,
+} // trailing space 
+, repeat BodyLength `a\` ,
+@rightPad	(  ) repeat Pad packetx `it's`, A @calculatedFrom(
+"""" ) ,@calculatedFrom( //
+"""") u128	, } packet f32a
+    { } // c")).
+Eval vm_compute in ("<<<M4462>>>" ++ check (runes_of_ascii "root packet _x {
+    match Packet as msg_type {
+        """" : trueish,
+        /// triple
+        // a // b
+        """ ++ [28040; 24687]%N ++ runes_of_ascii """ : uint8x,
+        ""a\\"" : T,
+        00 : _x,
+        ""`tick`"" : Logon,
+    },// " ++ [128512]%N ++ runes_of_ascii " emoji
+    @lengthOf(Logon)
+    @calculatedFrom(""a\""b"")
+    @leftPad(' ')
+    int8 leftPad,// @lengthOf(
+    repeat i32 i8i8,
+    @lengthOf(metadata)
+    // a // b
+    // a // b
+    string trueish @calculatedFrom(""CRC32"") `" ++ [233]%N ++ runes_of_ascii "`,
+    @calculatedFrom(""packet"")
+    @calculatedFrom(""abc"")
+    char[3] uint8x `
+        `,
+    match _x as BodyLength {
+        7 : repeatCount,
+        ""\" ++ [233]%N ++ runes_of_ascii """ : lengthOf,
+        4294967296 : MetaDataX,
+        [""" ++ [128512]%N ++ runes_of_ascii """, 00] : o,
+        ""CRC32"" : matchKey,
+        7 : lengthOf,
+    },
+    int8 leftPad @calculatedFrom(""" ++ [233]%N ++ runes_of_ascii "t" ++ [233]%N ++ runes_of_ascii """),
+}
 
-    ]
+packet x_y_z {
+    @lengthOf(_x)
+    MetaDataX {
+        char[00] x @calculatedFrom(""" ++ [128512]%N ++ runes_of_ascii """),
+        match u128 as i8i8 {
+            [""""] : uint8x,
+        },// 50% %s
+    },
+}")).
+Eval vm_compute in ("<<<M3532>>>" ++ check (runes_of_ascii "options {
+    LittleEndian = false;
+    StringPrefixLenType = u16;
+    ArrayPrefixLenType = u8;
+    FixedStringPadFromLeft = true;
+    FixedStringPadChar = ' ';
+}
+packet Logon {
+}
+packet Reject {
+    InPx48 {
+        repeat string price,
+        u32 msgKind,
+        repeat InSide223 {
+            Logon,
+            repeat f64 Ref,
+            string tag7,
+        },
+        InClordid8 {
+            zchar[5] Qty,
+            u64 x,
+            repeat string lastPx,
+        },
+    },
+    Logon,
+    i16 lastPx,
+    repeat char[5] clOrdID,
+    zchar[2] Flags,
+    repeat string Side2,
+}
+root packet Order {
+    uint16 sym,
+    zchar[8] Side2,
+    repeat string clOrdID,
+    string tag7,
+    zchar[3] OrderId,
+    zchar[4] seqNo,
+    u32 f1,
+    u32 Acct @lengthOf(Body),
+    match f1 as Body {
+        58 : Reject,
+        180 : Logon,
+    },
+    u32 Px @calculatedFrom(""CRC32""),
+}
+")).
+Eval vm_compute in ("<<<M90>>>" ++ check (runes_of_ascii "// " ++ [27880; 37322]%N ++ runes_of_ascii "
+packet u { float @calculatedFrom( ""it's""  )
+    , }
+    // " ++ [27880; 37322]%N ++ runes_of_ascii "
+    packet string_
+    {// `tick` ""quote"" 'q'
+@tag( // " ++ [128512]%N ++ runes_of_ascii " emoji
+4294967296 )
+    @lengthOf( charz ) @leftPad(
+    ' '
+    )	uint8x
+@lengthOf(
+zchar
+) // c
+, //
+string body, @calculatedFrom(  ""{,}"" )As,}
+    packet  u
+    { // packet A { u8 x, }
+@lengthOf(
+roots // a // b
+) uint8
+    f32a `{ , }`// " ++ [128512]%N ++ runes_of_ascii " emoji
+,
+    // " ++ [27880; 37322]%N ++ runes_of_ascii "
+    repeat options1
+    // `tick` ""quote"" 'q'
+    , u8x
+    // trailing space 
+    As `a\` , @lengthOf(
+// " ++ [27880; 37322]%N ++ runes_of_ascii "
+// " ++ [128512]%N ++ runes_of_ascii " emoji
+msg_type
+    // " ++ [128512]%N ++ runes_of_ascii " emoji
+    )
+    repeat char[ // a // b
+42	] u8x ,_x
+{ repeat Packet
+// " ++ [27880; 37322]%N ++ runes_of_ascii "
+// " ++ [27880; 37322]%N ++ runes_of_ascii "
+a1 `u8 x,` , repeat int
+As , repeat
+    f64 // trailing space 
+chars
+    `100% of %d`
+,} // `tick` ""quote"" 'q'
+,
+zchar[ 3
+    ]  uint8x,
+    // trailing space 
+    zchar[ 007]Packet , } MetaData	repeatCount {float32 calculatedFrom, } //	t")).
+Eval vm_compute in ("<<<M3538>>>" ++ check (runes_of_ascii "options
+    {StringPrefixLenType
+=u64
+	; ArrayPrefixLenType
+    = 
+u8
+;
+	FixedStringPadChar=	'0'	;}
+
+    packet
+    Logout
+
+{  char[]f1,
+    repeat
+	u64
+Qty 
+,  string 
+Acct
+
+    ,  char[]
+Side2  ,
+	repeat
+i64 clOrdID  ,}
+	packet
+Logon
+{
+	i64
+
+tag7 
+,
+    Logout , @rightPad
+
+    (
+    '\x00'  )
+
+    char[
+
+    4 ]	Qty ,repeat  char[ 4 ]
+venue, string
+seqNo
+    ,}
+
+    packet
+
+Party {
+Logon
+
+    ,
+    float32 
+x
+    ,
+uint32 
+price ,
+
+    repeat
+string 
+venue, 
+repeat
+char[
+3  ] seqNo
+	,  }
+packet
+
+    Leg
+{string Flags ,
+	i32
+Ref
+
+,
+	repeat Logout ,	repeat u16
+x ,}  packet  Cancel{ 
+repeat
+Logon,  int8  Ref ,Logout , char[] OrderId
+, 
+int16
+Tail,
+    } root
+
+packet Heartbeat
+    {
+
+zchar[
+
+    8 ]  price
+, repeat
+
+Logout, Cancel,char[]
+
+    Qty 
+, int32 x , Leg ,
+	} ")).
+Eval vm_compute in ("<<<M180>>>" ++ check (runes_of_ascii "packet msg_type {
+// " ++ [128512]%N ++ runes_of_ascii " emoji
+// `tick` ""quote"" 'q'
+char[ 0 ] matchKey
+, @leftPad( ' '
+)repeat i8i8 `tab	here` ,match T as	packetx{ 7 :
+Packet
+,
+""" ++ [128512]%N ++ runes_of_ascii """ : i64_ , } ,
+    uint64
+    T
+,@leftPad (
+    ) u64
+    rootA @calculatedFrom(
+    //	t
+    ""a	b"" // trailing space 
+) , @calculatedFrom(  ""it's"" // " ++ [27880; 37322]%N ++ runes_of_ascii "
+)	char[ // @lengthOf(
+3 ]
+    // packet A { u8 x, }
+    calculatedFrom,@tag(7 )int64 roots `" ++ [233]%N ++ runes_of_ascii "`,packetx@lengthOf(	roots ) ,
+@lengthOf( int )  @calculatedFrom( ""a\""b"" )
+    @calculatedFrom(
+""" ++ [28040; 24687]%N ++ runes_of_ascii """ )  int32 MetaDataX
+    `it's` ,
+} packet u	{
+    repeat char options1 // " ++ [27880; 37322]%N ++ runes_of_ascii "
+,
+}// " ++ [27880; 37322]%N ++ runes_of_ascii "
+packet metadata
+{ @tag(	7 ) Logon
+@calculatedFrom( ""packet"") `say ""hi""`
+, } root
+packet repeatCount // " ++ [128512]%N ++ runes_of_ascii " emoji
+{
+    //x
+    match
+int
+    as charz {
+    ""abc""	: roots
+}, } packet _x{ }
+")).
+Eval vm_compute in ("<<<M3555>>>" ++ check (runes_of_ascii "options {
+    LittleEndian = true;
+    ArrayPrefixLenType = u32;
+}
+packet Order {
+    repeat u64 Acct,
+    i16 price,
+}
+packet Logon {
+    zchar[3] venue,
+    string Flags,
+    repeat InQty82 {
+        string Px,
+    },
+    repeat char[1] clOrdID,
+}
+packet Cancel {
+    int32 Tail,
+    repeat Logon,
+    repeat InFlags55 {
+        uint64 Note,
+        repeat InQty28 {
+            char[] msgKind,
+            char[7] OrderId,
+        },
+        char[] Px,
+    },
+    int16 Ref,
+}
+root packet Leg {
+    repeat Logon,
+    char[] venue,
+    u16 Flags,
+    i16 Tail,
+    repeat Cancel,
+    u8 Side2,
+    match Side2 as Body {
+        151 : Logon,
+        148 : Order,
+        162 : Cancel,
+    },
+    u16 x @calculatedFrom(""CRC32""),
+}
+")).
+Eval vm_compute in ("<<<M4054>>>" ++ check (runes_of_ascii "root	packet
+
+    chars
+	{ @calculatedFrom(
+"""" 	 // c
+    	)
+
+char[]Foo
+	@lengthOf(  Pad
+
+)
+
+, 
+        //x
+	// trailing space 
+
+match  x as
+
+pack { ""CRC32""
+:
+
+u8x
+	,} ,
+
+asx `" ++ [28040; 24687; 31867; 22411]%N ++ runes_of_ascii "` 
+,
+@rightPad  ( )@calculatedFrom(
+    ""\n""	)	uint8
+
+    zchar	// @lengthOf(
+    	`line1
+line2` 	 // @lengthOf(
+	,
+@lengthOf( 
+x  ) f32
+Pad
+
+    ,
+    match 
+falsey as
+
+BodyLength 
+{  """ ++ [233]%N ++ runes_of_ascii "t" ++ [233]%N ++ runes_of_ascii """// @lengthOf(
+    :charz 10
 
 :
 
-    charz  ,	255 :
+roots
+	, 10  : x_y_z,
 
-    u
-	, 
-} ,
-}
-, @rightPad  (  ' '	)
-	// packet A { u8 x, }
-    // " ++ [128512]%N ++ runes_of_ascii " emoji
-	  @tag( 
-255
-    )  // c
-  	@rightPad(
+    ""`tick`"" :  _x
 
-    ' ') u16  falsey
-
-, } options
-    { f32a =
-    """ ++ [128512]%N ++ runes_of_ascii """ 
-; }")).
-Eval vm_compute in ("<<<M1551>>>" ++ check (runes_of_ascii "  packet float 	 // a // b
-    { // c
-
-}
-	packet  u128 { 
-@calculatedFrom( 
-""1""
-	)	asx	x_y_z
-`" ++ [28040; 24687; 31867; 22411]%N ++ runes_of_ascii "`
-,  } root	packet
-
-    u8x
-	{  repeat uint8x	T 
-,  } packet
-
-    leftPad
-    {
-i64_,
-
-    @leftPad(
-
-    '0'	)
-	repeat tag 
 ,
-repeat uint8x { matchKey @calculatedFrom(""abc"") 
-,
-string charz
-	,	} 	 // trailing space 
-  ,@rightPad	(
+""// no comment""
+: 	 // 50% %s
+  chars[ 
+10
+	,
 
-    ) zchar[ 
-10 ]
-charz @calculatedFrom( 
-""" ++ [128512]%N ++ runes_of_ascii """
-
-    ) `// not a comment`	, 	 // trailing space 
-    	} 
-// @lengthOf(
-")).
-Eval vm_compute in ("<<<M1461>>>" ++ check (runes_of_ascii "options {
-    LittleEndian = false;
-    StringPrefixLenType = u8;
-    ArrayPrefixLenType = u16;
-    FixedStringPadFromLeft = false;
+    1 ] :
+	Foo ,
 }
-packet Heartbeat {
-    u8 seqNo,
-    @rightPad('\x00') char[8] x,
-}
-root packet Trade {
-    repeat Heartbeat,
-    float32 OrderId,
-    i64 Acct,
-    u16 Qty,
-    u16 clOrdID,
-    match clOrdID as Body {
-        131 : Heartbeat,
-    },
-    u16 sym @calculatedFrom(""CRC32""),
-}
-")).
-Eval vm_compute in ("<<<M260>>>" ++ check (runes_of_ascii "// " ++ [27880; 37322]%N ++ runes_of_ascii "
-packet tag { repeat i64_
-/// triple
-// @lengthOf(
-{
-zchar[007 ]  Logon@calculatedFrom( ""packet""
-    ) , repeat char[]leftPad `a\`
-    ,
-    zchar[ 3
-] float , }, }packet pack //
-{
-    repeat i8
-    len `
-` ,
-    }
-root packet uint8x
-    { // packet A { u8 x, }
-@leftPad
-() @calculatedFrom( ""a\\""
-    ) @rightPad ( '\x00') repeat char[	0
-]
-T,
-    } //	t")).
-Eval vm_compute in ("<<<M64>>>" ++ check (runes_of_ascii "MetaData chars {
-char[] // " ++ [128512]%N ++ runes_of_ascii " emoji
-As `a\` , } packet repeatCount {repeat
-    //x
-    charz
-{ char[ 00 ]	Pad,
-} , @calculatedFrom( ""// no comment"" )
-char[] matchKey //x
-`doc` ,u64 T@lengthOf(
-int
-) , }
-packet Header /// triple
-{  @calculatedFrom(""a\""b"") char[65535 ]
-// trailing space 
-// `tick` ""quote"" 'q'
-falsey , }
-")).
-Eval vm_compute in ("<<<M192>>>" ++ check (runes_of_ascii "root
-packet	i64_
-    {
-    }options{ chars
-= char[
-65535 ] body = ""abc""; u= ""`tick`"" trueish
-='0' }options
-{repeatCount= '\x00'
-// " ++ [128512]%N ++ runes_of_ascii " emoji
-/// triple
-;
-    f32a =""\n"" int
-    /// triple
-    = false Pad
-= ""1""repeatCount =""// no comment""; }root packet string_
-{i32 As `tab	here` , } // c")).
-Eval vm_compute in ("<<<M14>>>" ++ check (runes_of_ascii "MetaData	packetx {
-    packetx i64_ `say ""hi""` ,  } options {
-    } packet string_ {
-@lengthOf(repeatCount ) len
-{ zchar[ 10]
-// " ++ [128512]%N ++ runes_of_ascii " emoji
-// `tick` ""quote"" 'q'
-u128 ,
-    f32
-    falsey`say ""hi""`
-,uint16// a // b
-f32a
-    `crlf
-line`
-,
-    } , }
-// " ++ [27880; 37322]%N ++ runes_of_ascii "
-")).
-Eval vm_compute in ("<<<M1807>>>" ++ check (runes_of_ascii "// top
-packet u128 {
-    // c2
-    @lengthOf(body)
-    // c5
-    match x_y_z as u {
-        // c10
-        ""x y"" : i8i8,
-        // c14
-    },
-    // c16
-    @tag(255)
-    // c19
-    char[] roots @lengthOf(int),
-    // c25
-}
-// c26")).
-Eval vm_compute in ("<<<M477>>>" ++ check (runes_of_ascii "options
-{
-matchKey = 42/// triple
-x='0' ;
-// packet A { u8 x, }
-//
-charz
-=
-// packet A { u8 x, }
-// trailing space 
-true  ; } MetaData BodyLength
-{
-uint8
-pack pack,zchar[ 1]float ,  float32 x_y_z `` ,u32
-_x,i16 body  , }
-")).
-Eval vm_compute in ("<<<M482>>>" ++ check (runes_of_ascii "options
-{
-matchKey = 42/// triple
-x='0' ;
-// packet A { u8 x, }
-//
-charz
-=
-// packet A { u8 x, }
-// trailing space 
-true  ; } MetaData BodyLength
-{
-uint8
-pack, ,zchar[ 1]float ,  float32 x_y_z `` ,u32
-_x,i16 body  , }
-")).
-Eval vm_compute in ("<<<M262>>>" ++ check (runes_of_ascii "packet charz
-{ @lengthOf(leftPad ) charz  @calculatedFrom( ""a\""b""
-)`it's`	, char[]
-Foo ,	uint8 MetaDataX `u8 x,`
-    ,int64 i8i8 , @calculatedFrom( ""a	b""
-) zchar[ // trailing space 
-7 ] string_, } MetaData Pad{
-    }")).
-Eval vm_compute in ("<<<M534>>>" ++ check (runes_of_ascii "options
-{
-matchKey = 42/// triple
-x='0' ;
-// packet A { u8 x, }
-//
-charz
-=
-// packet A { u8 x, }
-// trailing space 
-true  ; } MetaData BodyLength
-{
-uint8
-pack,zchar[ 1]float ,  float32 x_y_z `` ,u64
-_x,i16 body  , }
-")).
-Eval vm_compute in ("<<<M554>>>" ++ check (runes_of_ascii "options
-{
-matchKey = 42/// triple
-x='0' ;
-// packet A { u8 x, }
-//
-charz
-=
-// packet A { u8 x, }
-// trailing space 
-true  ; } MetaData BodyLength
-{
-uint8
-pack,zchar[ 1]float ,  float32 x_y_z `` ,u32
-_x,i16 :  , }
-")).
-Eval vm_compute in ("<<<M173>>>" ++ check (runes_of_ascii "//
-packet
-    u { }
-    packet
-    u8x { }options  {
-    Logon =string ; calculatedFrom ='\x00'
-;
-BodyLength// " ++ [27880; 37322]%N ++ runes_of_ascii "
-= 1; //	t
-_x// " ++ [27880; 37322]%N ++ runes_of_ascii "
-=""CRC32""; } root
-/// triple
-// " ++ [27880; 37322]%N ++ runes_of_ascii "
-packet Z9_ {
-}
-    MetaData chars  {
-}
-")).
-Eval vm_compute in ("<<<M1880>>>" ++ check (runes_of_ascii "// top
-packet Logon {
-    // c2
-    @tag(42)
-    // c5
-    @rightPad(' ')
-    // c9
-    @leftPad()
-    // c12
-    repeat trueish {
-        // c15
-        string T,// c18
-    },// c20
-}// c21")).
-Eval vm_compute in ("<<<M684>>>" ++ check (runes_of_ascii "// c
-packet i64_ {	char[] calculatedFrom , } packet
-trueish  {@calculatedFrom(
-""a\\"" ) o { i32 falsey@lengthOf( uint8x ),
-} } , } // `tick` ""quote"" 'q'
-options {// c
-Z9_ = ' '//
-}
-")).
-Eval vm_compute in ("<<<M722>>>" ++ check (runes_of_ascii "// c
-packet i64_ {	char[] calculatedFrom , } packet
-trueish  {@calculatedFrom(
-""a\\"" ) o { i32 falsey@lengthOf( uint8x ),
- , } // `tick` ""quote"" 'q'
-options {// c
-Z9_ = ' '//
-}
-")).
-Eval vm_compute in ("<<<M495>>>" ++ check (runes_of_ascii "options
-{
-matchKey = 42/// triple
-x='0' ;
-// packet A { u8 x, }
-//
-charz
-=
-// packet A { u8 x, }
-// trailing space 
-true  ; } MetaData BodyLength
-{
-uint8
-pack,zchar[")).
-Eval vm_compute in ("<<<M1964>>>" ++ check (runes_of_ascii "packet A {
-    match k as n {
-        [
-            1, 22, 007, 4, 5,
-            66, 7, 8, 9, 10,
-            11, 12
-        ] : B,
-        2 : C,
-    },
-}")).
-Eval vm_compute in ("<<<M1952>>>" ++ check (runes_of_ascii "packet A {
-    match k as n {
-        [
-            ""a"", ""bb"", 007, ""d"", ""e"",
-            66, ""g"", ""h"", 9
-        ] : B,
-        2 : C,
-    },
-}")).
-Eval vm_compute in ("<<<M1882>>>" ++ check (runes_of_ascii "packet Header {
-    float32 repeatCount @lengthOf(f32a),
-}
-
-options {
-    As = true;
-}
-
-packet Pad {
-    @rightPad(' ')
-    leftPad,
-}")).
-Eval vm_compute in ("<<<M152>>>" ++ check (runes_of_ascii "options
-    {
-matchKey
-= ' '
-tag  = '\x00' ;
-    metadata
-// `tick` ""quote"" 'q'
-// @lengthOf(
-=  string ; charz
-= 65535
-; }
-")).
-Eval vm_compute in ("<<<M1606>>>" ++ check (runes_of_ascii "packet
-    i8i8
+, repeat u64
+u8x ``
+	,  }options 
+        // @lengthOf(
 	{
-lengthOf
+    Logon= 
+	    // trailing space 
+	zchar[ 
+//x
 
-lengthOf `u8 x,`
-	,
+10]zchar
+	=
+    char[10]
+	; Packet = 
+42
 
-} options
-	{ u
-	='\x00'
-    ; }
-	MetaData
-	i64_	{
-} MetaData Header{	}")).
-Eval vm_compute in ("<<<M649>>>" ++ check (runes_of_ascii "MetaData
-    // trailing space 
-    matchKey
-{ u64 chars // a // b
-,char[] lengthOf `// not a comment`
-    , //	t" ++ [8232]%N ++ runes_of_ascii "
-}")).
-Eval vm_compute in ("<<<M1980>>>" ++ check (runes_of_ascii "  packet
-    o
+    ;  }")).
+Eval vm_compute in ("<<<M4273>>>" ++ check (runes_of_ascii "MetaData  As
 
-    {
-	@tag(
-    42	)
+{} root  packet
+matchKey {	// " ++ [128512]%N ++ runes_of_ascii " emoji
+@calculatedFrom(""CRC32"") 
+// @lengthOf(
 
-    repeat	x{ 
+@tag(
+4294967296) repeat
 char[
-    0123456789 ]	i64_	,
-	}  ,  } options
-	{  }	// c
+7
+] 
+MetaDataX ,  @lengthOf( 
+pack ) asx @lengthOf( 	 // 50% %s
+	  zchar 
+// " ++ [27880; 37322]%N ++ runes_of_ascii "
+  ),  @calculatedFrom(
+	""" ++ [233]%N ++ runes_of_ascii "t" ++ [233]%N ++ runes_of_ascii """
+    )zchar[ 0123456789 ] // `tick` ""quote"" 'q'
+tag 
+@lengthOf( i8i8)	`tab	here`,
+repeat  
+  // 50% %s
+  	// `tick` ""quote"" 'q'
+  u8x,// 50% %s
+  uint32
+    crc `doc`  ,
+@leftPad
+(
+'0'  )
+	@calculatedFrom(
+""1"" ) @tag(
+    0 
+	    //
+
+)	Logon crc,@lengthOf(  zchar
+)
+	@rightPad(  )@leftPad  (
+'\x00' )
+
+repeat
+    u8 
+	//	t
+    options1
+    `// not a comment`
+
+,// " ++ [128512]%N ++ runes_of_ascii " emoji
+  string
+repeatCount 
+,
+    } 
+packet 
+u128{ }
 ")).
-Eval vm_compute in ("<<<M1857>>>" ++ check (runes_of_ascii "// @lengthOf(
+Eval vm_compute in ("<<<M624>>>" ++ check (runes_of_ascii "packet tag{
+@rightPad( ) repeat options1
+T `a\`
+,
+@calculatedFrom( ""it's"" )/// triple
+float64
+// packet A { u8 x, }
+// `tick` ""quote"" 'q'
+float `100% of %d` , @rightPad ('0' )Foo //	t
+repeatCount
+, // a // b
+repeat	float pack `line1
+line2`
+    // packet A { u8 x, }
+    , // a // b
+@leftPad(	) match Foo as
+//x
+// " ++ [128512]%N ++ runes_of_ascii " emoji
+MetaDataX // 50% %s
+{
+    // " ++ [128512]%N ++ runes_of_ascii " emoji
+    """ ++ [233]%N ++ runes_of_ascii "t" ++ [233]%N ++ runes_of_ascii """ :  f32a ,00	: roots
+    , [
+""a\\"" ] : BodyLength }
+,
+    int16
+// " ++ [128512]%N ++ runes_of_ascii " emoji
+//	t
+body
+,/// triple
+match
+    // `tick` ""quote"" 'q'
+    roots as Z9_{ 65535 //	t
+:tag , [""it's"" , 255 ] : // `tick` ""quote"" 'q'
+Foo
+    } , // @lengthOf(
+leftPad`{ , }` , f64 chars `a\`, }
+")).
+Eval vm_compute in ("<<<M4485>>>" ++ check (runes_of_ascii "MetaData string_ {
+    charz uint8x `say ""hi""`,
+    float64 float,
+    tag As `u8 x,`,
+}
+
 options {
+    len = ' ';
 }
 
-packet pack {
-    //
+root packet i8i8 {
+    match charz as o {
+        [
+            """ ++ [28040; 24687]%N ++ runes_of_ascii """, ""\" ++ [233]%N ++ runes_of_ascii """, 3, 007, ""a\""b"",
+            1
+        ] : msg_type,
+        ""CRC32"" : x,
+    },
+    uint16 a1 @calculatedFrom(""1""),
+    Z9_ @calculatedFrom(""abc"") `" ++ [28040; 24687; 31867; 22411]%N ++ runes_of_ascii "`,
+    Header @lengthOf(len),
+    @lengthOf(int)
+    int64 msg_type,
+    trueish,
+    uint64 Logon `two words`,
+    float {
+        a1 calculatedFrom `{ , }`,
+    },
+    @tag(65535)
+    _x @lengthOf(tag) `say ""hi""`,
 }
 
-options {
-}
-
-MetaData msg_type {
-}
-
-root packet repeatCount {
+packet falsey {
+    // " ++ [27880; 37322]%N ++ runes_of_ascii "
+    repeat x_y_z,
 }")).
-Eval vm_compute in ("<<<M1485>>>" ++ check (runes_of_ascii "packet Logon {
-    @tag(42)
-    @rightPad(' ')
-    @leftPad()
-    repeat trueish {
-        string T,
+Eval vm_compute in ("<<<M579>>>" ++ check (runes_of_ascii "root
+packet
+x_y_z
+// c
+// " ++ [128512]%N ++ runes_of_ascii " emoji
+{
+    @rightPad
+    //
+    (
+    ) u64
+zchar
+    @calculatedFrom( ""a\\"" /// triple
+) ,@lengthOf(msg_type
+) @tag(
+65535 )u8
+    x_y_z ,
+@rightPad
+    ('\x00' ) @lengthOf(// " ++ [128512]%N ++ runes_of_ascii " emoji
+rootA )
+    _x crc ,	@calculatedFrom(
+    ""`tick`"" )o {match T as rootA {""" ++ [233]%N ++ runes_of_ascii "t" ++ [233]%N ++ runes_of_ascii """ : Logon ,
+    //
+    [""x y"" ] :
+    As  , },
+}
+,  }
+packet //	t
+msg_type {
+match asx as asx { ""packet"" : uint8x , [
+65535 , """ ++ [28040; 24687]%N ++ runes_of_ascii """	]
+:u8x
+, ""it's""
+:Packet , [ ""`tick`""
+, 10 ,
+""1"" // c
+]
+: calculatedFrom	4294967296 :
+T , }, }
+packet	charz { //
+float64
+    o , repeat Packet, }
+")).
+Eval vm_compute in ("<<<M637>>>" ++ check (runes_of_ascii "
+MetaData f32a {i8 asx
+,
+    string o `a\` ,  uint8 o `a\` , T BodyLength
+`{ , }`	,
+float64 Packet	`{ , }` ,char[3 ]
+As , }  packet f32a// trailing space 
+{ } root packet
+int{  i8
+Header // 50% %s
+@lengthOf(
+    body
+) ``//
+,	@tag(
+    4294967296
+    ) char[007
+    ]
+falsey , MetaDataX
+leftPad,match lengthOf as i64_
+    {""a\\""
+    : T // packet A { u8 x, }
+, [ 65535
+, // 50% %s
+00] : //x
+int , ""packet""
+    : Pad  } , char asx	,
+string lengthOf
+,
+    // trailing space 
+    }	MetaData stringy// a // b
+{u16  metadata
+    , _x
+u8x // " ++ [27880; 37322]%N ++ runes_of_ascii "
+,	}")).
+Eval vm_compute in ("<<<M882>>>" ++ check (runes_of_ascii "
+options
+{	string_ = """"// trailing space 
+; _x = 1  chars = // a // b
+' ' ; _x =
+    '\x00' // trailing space 
+; matchKey = 4294967296
+    }options	{
+    float
+=true; metadata
+= 65535
+Foo  = '\x00'A =
+    f64  ; As
+= // c
+""// no comment"" ; } packet As { f32
+matchKey // trailing space 
+@calculatedFrom(  ""abc""  )  ,
+f32  x @calculatedFrom(
+""{,}"" ) `doc`
+, i32 BodyLength , match A as asx { 1 :	int [ 42
+,	""a\""b""
+,// c
+""\n"" ] : options1// `tick` ""quote"" 'q'
+,	} ,
+i16 f32a
+    `// not a comment`,
+}
+    options{ u= 255
+    ;
+    }
+")).
+Eval vm_compute in ("<<<M4518>>>" ++ check (runes_of_ascii "root packet roots {
+}
+
+packet u128 {
+    @tag(65535)
+    // `tick` ""quote"" 'q'
+    zchar[42] x @calculatedFrom(""a	b"") `doc`,
+}
+
+options {
+    calculatedFrom = int32;/// triple
+}
+
+packet u8x {
+    @calculatedFrom(""\" ++ [233]%N ++ runes_of_ascii """)
+    string_ @lengthOf(asx),
+    @tag(007)
+    @tag(10)
+    repeat char[] Foo `100% of %d`,
+    repeat i64_ {
+        match u8x as tag {
+            [""`tick`""] : T,
+            42 : x_y_z,
+        },
+        char[7] Z9_ @calculatedFrom(""a\\"") `line1
+        line2`,
+        float64 msg_type,
     },
 }")).
-Eval vm_compute in ("<<<M930>>>" ++ check (runes_of_ascii "packet A {
-    u16 len @lengthOf(body) `
-`,
-    u32 crc @calculatedFrom(""CRC32"") `
-`,
-    string body,
-}")).
-Eval vm_compute in ("<<<M1272>>>" ++ check (runes_of_ascii "packet calculatedFrom { @tag( 4294967296 ) u msg_type , char[
-// c
-3 ] crc @lengthOf( len ) `u8 x,` , }")).
-Eval vm_compute in ("<<<M1406>>>" ++ check (runes_of_ascii "packet FooBar {
-    u8 a,
+Eval vm_compute in ("<<<M1091>>>" ++ check (runes_of_ascii "MetaData// c
+falsey{
+char[
+255] // " ++ [128512]%N ++ runes_of_ascii " emoji
+trueish `{ , }` // trailing space 
+,  }// packet A { u8 x, }
+MetaData
+// packet A { u8 x, }
+/// triple
+falsey { u32 u8x , }	MetaData a1
+    { }packet u8x
+    // @lengthOf(
+    {
+    match
+Z9_
+    as stringy
+    // " ++ [128512]%N ++ runes_of_ascii " emoji
+    { 1
+    :_x,//	t
+[ 255 ,0 ]
+:i8i8 , //x
+65535:
+    msg_type
+,
+    0123456789 : T , } ,@rightPad
+    (  '0' ) char[]	pack @calculatedFrom(
+""a\""b""
+    )
+, len@lengthOf(  _x
+// `tick` ""quote"" 'q'
+// @lengthOf(
+)
+`" ++ [233]%N ++ runes_of_ascii "`, }
+")).
+Eval vm_compute in ("<<<M1164>>>" ++ check (runes_of_ascii "packet
+leftPad{	int8 stringy @calculatedFrom(
+    ""a\\"" )
+,
+    match
+a1
+as x_y_z{ 1:BodyLength
+,	42 :
+body,  [ ""x y"" // 50% %s
+, ""`tick`"" ] :x, }
+    , @lengthOf(x_y_z
+    )
+    @tag(
+65535
+    ) @lengthOf(Pad)f32 u8x // c
+`say ""hi""` ,match charz as body
+{ [ 255 ,
+""// no comment""
+,""" ++ [128512]%N ++ runes_of_ascii """ , 0
+,	42 ]
+:
+    BodyLength	, }
+    , @rightPad	( ) stringy // 50% %s
+@lengthOf(
+Z9_) `{ , }` ,@lengthOf(uint8x  )
+string
+    // packet A { u8 x, }
+    o `100% of %d` ,}
+")).
+Eval vm_compute in ("<<<M48>>>" ++ check (runes_of_ascii "MetaData	i8i8 { Packet // `tick` ""quote"" 'q'
+roots ,
+} root packet
+//	t
+// packet A { u8 x, }
+matchKey {	@leftPad(
+    '\x00'
+) charz
+, match MetaDataX // c
+as T { [ 42
+    ] :
+_x
+/// triple
+// " ++ [27880; 37322]%N ++ runes_of_ascii "
+,// 50% %s
+42 : Packet
+0// `tick` ""quote"" 'q'
+:
+chars
+    // packet A { u8 x, }
+    ,
+// @lengthOf(
+//x
+255 : Foo }, @tag(
+007 ) /// triple
+repeat int32 chars , } packet x_y_z {
+    stringy
+    zchar `it's` , repeat trueish
+    /// triple
+    ,}")).
+Eval vm_compute in ("<<<M3823>>>" ++ check (runes_of_ascii "
+packet	B	// c1
+
+{ // c2a
+	// c2b
+    u8// c3a
+	  // c3b
+	a 
+    // c4
+,// c5a
+		// c5b
+    	} root
+
+    packet 	 // c8
+  P	// c9a
+    // c9b
+  {	u8
+    K// c12a
+		// c12b
+, 
+    // c13
+	u8  // c14a
+  // c14b
+L  // c15
+
+  @lengthOf(// c16
+
+Body
+    )  // c18
+  ,
+	match
+
+// c20
+K
+
+as  // c22
+	  Body 	 // c23a
+
+// c23b
+
+  { 
+	    // c24
+    1 :B 
+  // c27
+		, 
 }
-packet foo_bar {
-    u16 b,
+    // c29
+    	, // c30a
+    // c30b
+
+} 
+    // c31
+")).
+Eval vm_compute in ("<<<M4219>>>" ++ check (runes_of_ascii "packet
+	Pad
+
+{
+
+    // @lengthOf(
+/// triple
+	  @tag(  1
+
+    )
+	@leftPad (
+	'0'
+	)
+
+    repeat 
+zchar[ 10 
+] Packet 
+,
+	uint32 
+BodyLength `100% of %d` ,
+repeat
+    char[
+	10	] Z9_  , @leftPad('0' ) repeat
+    Foo
+    a1
+    ,
+	char[42
+    ]  repeatCount `line1
+line2` 
+    // packet A { u8 x, }
+
+// trailing space 
+  ,
+    @rightPad
+
+(
+)  char[]  // packet A { u8 x, }
+	crc,
+pack@calculatedFrom(
+
+""\" ++ [233]%N ++ runes_of_ascii """ ), }
+")).
+Eval vm_compute in ("<<<M3529>>>" ++ check (runes_of_ascii "packet NewOrder {
+    u32 qty,
 }
-root packet R {
-    FooBar,
-    foo_bar,
+packet Cancel {
+    u64 id,
+}
+packet Business {
+    u8 Kind,
+    match Kind as Detail {
+        1 : NewOrder,
+        2 : Cancel,
+    },
+}
+packet TcpFrame {
+    u8 T,
+    match T as Body {
+        1 : Business,
+    },
+}
+packet UdpFrame {
+    u8 U,
+    match U as Body {
+        1 : Business,
+    },
+    Business extra,
+}
+root packet Wire {
+    TcpFrame,
+    UdpFrame,
 }
 ")).
-Eval vm_compute in ("<<<M882>>>" ++ check (runes_of_ascii "packet A {
-  match k as n {
-    [1, ""bb"", 007, ""d"", 5, ""f"", 7, ""h"", 9, ""j""] : B
-    2 : C
-  },
-}")).
-Eval vm_compute in ("<<<M1150>>>" ++ check (runes_of_ascii "packet Logon { @tag( 42 ) @rightPad ( ' ' ) @leftPad // c
-( ) repeat trueish { string T , } , }")).
-Eval vm_compute in ("<<<M1648>>>" ++ check (runes_of_ascii "
-
-  MetaData
-	_x {zchar[
-        // c
-
-	4294967296
-    ]
-
-lengthOf 
-`// not a comment`
-	,
-
+Eval vm_compute in ("<<<M4072>>>" ++ check (runes_of_ascii "packet BodyLength {
+    pack {
+        repeat uint8 u128 `it's`,
+        repeat chars Foo `u8 x,`,
+        i32 x_y_z `
+                `,
+    },
+    @rightPad()
+    chars,
 }
 
-")).
-Eval vm_compute in ("<<<M873>>>" ++ check (runes_of_ascii "packet A {
-  match k as n {
-    [1, 22, ""c c"", 4, 5, ""f"", 7, 8, ""i""] : B
-    2 : C
-  },
+/// triple
+root packet f32a {
+    @calculatedFrom(""1"")
+    match repeatCount as matchKey {
+        0123456789 : BodyLength,
+        007 : metadata,
+        ""a\""b"" : stringy,
+    },
+    repeat f32a tag `a\`,
 }")).
-Eval vm_compute in ("<<<M630>>>" ++ check (runes_of_ascii "MetaData
-    // trailing space 
-    matchKey
-{ u64 chars // a // b
-,char[] lengthOf")).
-Eval vm_compute in ("<<<M331>>>" ++ check (runes_of_ascii "MetaData
+Eval vm_compute in ("<<<M4164>>>" ++ check (runes_of_ascii "MetaData lengthOf {
+    //
+    char[00] falsey,
+    string packetx `crlf
+    line`,
+    charz _x,
+    crc metadata,
+    uint32 metadata `tab	here`,
+    u16 i64_,
+}
+
+MetaData As {
+    char[] crc,
+    i8 T,
+    u8 u,// `tick` ""quote"" 'q'
+    string crc `line1
+    line2`,
+    i16 leftPad,
+}
+
+root packet crc {
+    // packet A { u8 x, }
+    i32 uint8x `line1
+    line2`,
+}")).
+Eval vm_compute in ("<<<M27>>>" ++ check (runes_of_ascii "packet u8x //
+{ char[
+1]
+roots
+    , msg_type @calculatedFrom(
+""" ++ [28040; 24687]%N ++ runes_of_ascii """ ) `{ , }` , rootA , } packet stringy { charz
 // a // b
 //	t
-rootA { } options //
-{ tag // `tick` ""quote"" 'q'
-=
-3; }
+,
+// 50% %s
+// `tick` ""quote"" 'q'
+repeat
+options1{ asx , Logon {
+i64_
+metadata
+`
+` , }
+//x
+//
+, i64 metadata ,repeat// c
+packetx { charz @lengthOf( Header
+), } // c
+, }
+    , }
+options {leftPad
+    = 10 ;
+    } // " ++ [128512]%N ++ runes_of_ascii " emoji")).
+Eval vm_compute in ("<<<M3717>>>" ++ check (runes_of_ascii "
+packet  trueish {// @lengthOf(
+		i8
+	Pad 
+,
+
+    repeat Foo 	 // " ++ [27880; 37322]%N ++ runes_of_ascii "
+		stringy
+	, }
+
+MetaData
+
+_x
+    {
+
+} packet
+
+calculatedFrom{ 
+repeat  char[]  //	t
+	uint8x
+    `tab	here` , @leftPad ( ' ' 
+)  match 
+chars  as metadata
+{ 00 
+: a1 
+""it's""
+:  _x
+, }
+
+,
+
+}//	t
+	packet 
+  //x
+	msg_type
+    {char[] // " ++ [128512]%N ++ runes_of_ascii " emoji
+  uint8x 
+,}
+	    //	t
 ")).
-Eval vm_compute in ("<<<M1233>>>" ++ check (runes_of_ascii "packet o { @tag( 42 ) repeat x { char[ 0123456789 ] i64_
+Eval vm_compute in ("<<<M3948>>>" ++ check (runes_of_ascii "packet matchKey {
+    @tag(0)
+    @lengthOf(chars)
+    @calculatedFrom(""`tick`"")
+    f64 asx,
+    @calculatedFrom(""" ++ [128512]%N ++ runes_of_ascii """)
+    repeat repeatCount charz `tab	here`,/// triple
+    @rightPad()
+    string_,
+}
+
+options {
+    repeatCount = char[1]
+    lengthOf = """ ++ [28040; 24687]%N ++ runes_of_ascii """// packet A { u8 x, }
+    As = ""a\\""
+    o = '\x00'
+    i8i8 = true;
+}")).
+Eval vm_compute in ("<<<M679>>>" ++ check (runes_of_ascii "packet u8x{
+metadata`line1
+line2` , Packet @lengthOf( float ) `u8 x,` ,@tag( 0123456789
+) x , } options { }
+    MetaData Z9_ { zchar[ 0 ]
+i8i8 //x
+, leftPad
+    repeatCount , f32 o
+// trailing space 
+//x
+,
+    repeatCount
+// 50% %s
+//x
+repeatCount`crlf
+line` , char[] pack `it's`// @lengthOf(
+, }
+/// triple
+")).
+Eval vm_compute in ("<<<M4294>>>" ++ check (runes_of_ascii "
+root  packet falsey{
+	@tag(0123456789) leftPad 
+,	repeat
+o 
+
+    // @lengthOf(
+    	metadata
+	,calculatedFrom	@lengthOf(
+pack
+    ),
+
+    repeat
+    int {
+        // packet A { u8 x, }
+
+//
+		int8
+
+zchar  // @lengthOf(
+
+,
+
+    float32
+float
+	`100% of %d`
+    ,
+	repeat
+	u64
+	repeatCount
+, } , }")).
+Eval vm_compute in ("<<<M507>>>" ++ check (runes_of_ascii "  options {} packet//
+Foo {
+// trailing space 
 // c
-, } , } options { }")).
-Eval vm_compute in ("<<<M823>>>" ++ check (runes_of_ascii "packet A {
+Logon
+    x_y_z  ,@leftPad ( ) // `tick` ""quote"" 'q'
+@calculatedFrom(
+    // trailing space 
+    ""\n"" ) @lengthOf( asx)zchar[ 4294967296	] o , string a1 @lengthOf(_x  )`u8 x,`  ,	@tag( 1
+)char[
+007 ]
+i64_ `tab	here`, } packet float
+    {}")).
+Eval vm_compute in ("<<<M1992>>>" ++ check (runes_of_ascii "packet	packetx { // trailing space 
+x_y_z
+{
+string
+charz ,
+string x// @lengthOf(
+`two words`
+    ,  u8x { // `tick` ""quote"" 'q'
+charz `100% of %d` // packet A { u8 x, }
+,}// " ++ [27880; 37322]%N ++ runes_of_ascii "
+,} , }
+    // a // b
+    packet metadata {  @leftPad ( '0') repeat repeat i32 options1 ,u64 uint8x , }
+")).
+Eval vm_compute in ("<<<M2040>>>" ++ check (runes_of_ascii "packet	packetx { // trailing space 
+x_y_z
+{
+string
+charz ,
+string x// @lengthOf(
+`two words`
+    ,  u8x { // `tick` ""quote"" 'q'
+charz `100% of %d` // packet A { u8 x, }
+,}// " ++ [27880; 37322]%N ++ runes_of_ascii "
+,} , }
+    // a // b
+    packet metadata {  @leftPad ( '1''0') repeat i32 options1 ,u64 uint8x , }
+")).
+Eval vm_compute in ("<<<M2039>>>" ++ check (runes_of_ascii "packet	packetx { // trailing space 
+x_y_z
+{
+string
+charz ,
+string x// @lengthOf(
+`two words`
+    ,  u8x { // `tick` ""quote"" 'q'
+charz `100% of $%d` // packet A { u8 x, }
+,}// " ++ [27880; 37322]%N ++ runes_of_ascii "
+,} , }
+    // a // b
+    packet metadata {  @leftPad ( '0') repeat i32 options1 ,u64 uint8x , }
+")).
+Eval vm_compute in ("<<<M1973>>>" ++ check (runes_of_ascii "packet	packetx { // trailing space 
+x_y_z
+{
+string
+charz ,
+string x// @lengthOf(
+`two words`
+    ,  u8x { // `tick` ""quote"" 'q'
+charz `100% of %d` // packet A { u8 x, }
+,}// " ++ [27880; 37322]%N ++ runes_of_ascii "
+,} , }
+    // a // b
+    packet metadata {  ( @leftPad '0') repeat i32 options1 ,u64 uint8x , }
+")).
+Eval vm_compute in ("<<<M2006>>>" ++ check (runes_of_ascii "packet	packetx { // trailing space 
+x_y_z
+{
+string
+charz ,
+string x// @lengthOf(
+`two words`
+    ,  u8x { // `tick` ""quote"" 'q'
+charz `100% of %d` // packet A { u8 x, }
+,}// " ++ [27880; 37322]%N ++ runes_of_ascii "
+,} , }
+    // a // b
+    packet metadata {  @leftPad ( '0') repeat i32 options1 u64 uint8x , }
+")).
+Eval vm_compute in ("<<<M836>>>" ++ check (runes_of_ascii "packet// `tick` ""quote"" 'q'
+calculatedFrom
+// 50% %s
+//x
+{ @tag(
+    4294967296
+// " ++ [27880; 37322]%N ++ runes_of_ascii "
+/// triple
+)
+@tag(
+    //	t
+    65535
+// 50% %s
+// 50% %s
+) @calculatedFrom( """ ++ [28040; 24687]%N ++ runes_of_ascii """
+    ) u8 u128 `tab	here`// `tick` ""quote"" 'q'
+, }packet stringy {@rightPad ( ) chars , } options {
+    }")).
+Eval vm_compute in ("<<<M4203>>>" ++ check (runes_of_ascii "
+
+  packet
+
+MDSnapshotZZ{ u8
+
+    a	,	} packet OrderACK
+{	u16
+b 
+,	} packet  HTTPServerInfo
+    {
+	string
+
+s
+
+    ,
+	}	root packet FIXMsg{u8
+	KType	,
+
+MDSnapshotZZ
+    ,
+
+    repeat
+OrderACK,
+match  KType 
+as Body { 1:HTTPServerInfo ,
+
+2
+	:  OrderACK
+, } , }
+
+")).
+Eval vm_compute in ("<<<M512>>>" ++ check (runes_of_ascii "MetaData T // a // b
+{ }MetaData msg_type { // `tick` ""quote"" 'q'
+string Pad ,}
+    root packet MetaDataX
+    // a // b
+    {  u64 u  , }
+    MetaData metadata	{float BodyLength, char[]
+repeatCount ,
+u64 uint8x// @lengthOf(
+`// not a comment`  ,string len
+`` ,
+}")).
+Eval vm_compute in ("<<<M2070>>>" ++ check (runes_of_ascii "packet// packet A { u8 x, }
+repeatCount	{// packet A { u8 x, }
+@leftPad ( ( '\x00'
+) repeat u8x MetaDataX `crlf
+line`,
+    repeat
+    char[] MetaDataX
+    ,
+u64	uint8x@calculatedFrom(""a\""b""
+// c
+// packet A { u8 x, }
+) `tab	here`
+,//
+}MetaData pack
+    {
+    }
+")).
+Eval vm_compute in ("<<<M1399>>>" ++ check (runes_of_ascii "
+packet	lengthOf { } // `tick` ""quote"" 'q'
+root packet x{char[ 42	]
+    As , zchar[
+    1 //	t
+] Foo @calculatedFrom( ""it's""
+)
+// @lengthOf(
+// 50% %s
+,@lengthOf(
+    trueish )char matchKey//	t
+@calculatedFrom(""a	b"" )  `line1
+line2` , } packet Packet{
+    }
+")).
+Eval vm_compute in ("<<<M2171>>>" ++ check (runes_of_ascii "packet// packet A { u8 x, }
+repeatCount	{// packet A { u8 x, }
+@leftPad ( '\x00'
+) repeat u8x MetaDataX `crlf
+line`,
+    repeat
+    char[] MetaDataX
+    ,
+u64	uint8x@calculatedFrom(""a\""b""
+// c
+// packet A { u8 x, }
+) `tab	here`
+,//
+}pack MetaData
+    {
+    }
+")).
+Eval vm_compute in ("<<<M938>>>" ++ check (runes_of_ascii "// c
+root
+    packet roots { @leftPad	( '\x00') repeat BodyLength { repeat Pad {Foo {
+repeat i8i8
+,	MetaDataX  , match stringy as lengthOf
+    //	t
+    { 7//	t
+: len
+    }
+    // trailing space 
+    , }, }
+, repeat string rootA,
+}
+,
+}
+// trailing space 
+")).
+Eval vm_compute in ("<<<M2157>>>" ++ check (runes_of_ascii "packet// packet A { u8 x, }
+repeatCount	{// packet A { u8 x, }
+@leftPad ( '\x00'
+) repeat u8x MetaDataX `crlf
+line`,
+    repeat
+    char[] MetaDataX
+    ,
+u64	uint8x@calculatedFrom(""a\""b""
+// c
+// packet A { u8 x, }
+) '0'
+,//
+}MetaData pack
+    {
+    }
+")).
+Eval vm_compute in ("<<<M1576>>>" ++ check (runes_of_ascii "packet calculatedFrom
+{ @calculatedFrom( ""a\\"" ) zchar[ 4294967296 ]
+calculatedFrom@lengthOf( pack )	`100% of %d` ,char[]body@calculatedFrom( ""// no comment"" )  ,
+@tag( 007) //x
+int8
+leftPad`it's` , repeat pack
+    { repeat metadata 3] body
+,},
+}")).
+Eval vm_compute in ("<<<M433>>>" ++ check (runes_of_ascii "MetaData
+    body{string
+    metadata
+    // trailing space 
+    `u8 x,`
+,
+    uint16
+    string_`it's` , zchar Logon
+,u // c
+_x
+// a // b
+// `tick` ""quote"" 'q'
+, } options	{
+string_
+= """ ++ [28040; 24687]%N ++ runes_of_ascii """ ; msg_type
+=42 ;
+    Foo  = 0123456789 ;o =int64 ;
+    }")).
+Eval vm_compute in ("<<<M1445>>>" ++ check (runes_of_ascii "packet calculatedFrom
+{ @calculatedFrom( ""a\\"" ) 4294967296 zchar[ ]
+calculatedFrom@lengthOf( pack )	`100% of %d` ,char[]body@calculatedFrom( ""// no comment"" )  ,
+@tag( 007) //x
+int8
+leftPad`it's` , repeat pack
+    { repeat char[ 3] body
+,},
+}")).
+Eval vm_compute in ("<<<M1633>>>" ++ check (runes_of_ascii "packet calculatedFrom
+{ @calculatedFrom( ""a\\"" ) zchar[ 4294967296 ]
+calculatedFrom@lengthOf( pack )	`100% of %d` ,char[]body@calculatedFrom( ""// no comment"" )  ,
+@tag( 007) //x
+int8
+leftPad`it's` , repeat " ++ [252]%N ++ runes_of_ascii "ber
+    { repeat char[ 3] body
+,},
+}")).
+Eval vm_compute in ("<<<M1611>>>" ++ check (runes_of_ascii "packet calculatedFrom
+{ @calculatedFrom( ""a\\"" ) zchar[ 4294967296 ]
+calculatedFrom@lengthOf( pack )	`100% of %d` ,char[]body@calculatedFrom( ""// no comment"" )  ,
+@tag( 007) //x
+int8
+leftPad`it's` , repeat pack
+    { repeat char[ 3] body
+,},")).
+Eval vm_compute in ("<<<M1543>>>" ++ check (runes_of_ascii "packet calculatedFrom
+{ @calculatedFrom( ""a\\"" ) zchar[ 4294967296 ]
+calculatedFrom@lengthOf( pack )	`100% of %d` ,char[]body@calculatedFrom( ""// no comment"" )  ,
+@tag( 007) //x
+int8
+leftPad , repeat pack
+    { repeat char[ 3] body
+,},
+}")).
+Eval vm_compute in ("<<<M3507>>>" ++ check (runes_of_ascii "options {
+
+FixedStringPadChar= 
+'0';
+
+    }
+
+packet 
+Q{	zchar[
+4 ]
+    z	,@rightPad (
+'\x00' )
+char[
+3
+]	n,  char[
+    5
+
+    ]
+d ,
+}	root packet
+
+    R
+{	Q ,
+
+zchar[ 
+8]
+
+    top
+
+,repeat zchar[	2  ]
+
+    zs
+    ,  }
+")).
+Eval vm_compute in ("<<<M1153>>>" ++ check (runes_of_ascii "MetaData string_{char[ 255 ] msg_type	`crlf
+line` , }  packet
+    As { a1
+`u8 x,` ,
+    i8i8  ,
+    @tag( 00 )
+char[ // c
+0]
+    stringy , } // @lengthOf(
+options
+{ lengthOf
+//
+//	t
+= int64}
+    MetaData
+    u128
+{}
+
+")).
+Eval vm_compute in ("<<<M3701>>>" ++ check (runes_of_ascii "
+
+  packet
+    packetx 
+{ 	 // trailing space 
+	x_y_z
+{
+string
+charz , string	x  // @lengthOf(
+
+`two words` , 
+u8x
+{	// `tick` ""quote"" 'q'
+      charz
+`100% of %d`// packet A { u8 x, }
+	, }// " ++ [27880; 37322]%N ++ runes_of_ascii "
+    	,  }, }")).
+Eval vm_compute in ("<<<M3978>>>" ++ check (runes_of_ascii "MetaData string_ {
+    char[255] msg_type `crlf
+    line`,
+}
+
+packet As {
+    a1 `u8 x,`,
+    i8i8,
+    @tag(00)
+    char[0] stringy,
+}// @lengthOf(
+
+options {
+    lengthOf = int64
+}
+
+MetaData u128 {
+}")).
+Eval vm_compute in ("<<<M979>>>" ++ check (runes_of_ascii "packet
+Pad {
+    @lengthOf( pack) char[] Header, match Pad as
+Logon
+{42:
+//
+// 50% %s
+x
+    , [0 , 4294967296  ]
+    : len	,
+//	t
+// @lengthOf(
+""a\""b""//	t
+: metadata, } ,msg_type
+msg_type
+, }
+")).
+Eval vm_compute in ("<<<M874>>>" ++ check (runes_of_ascii "root packet chars {  @rightPad ( ) @calculatedFrom( ""CRC32"" )
+@calculatedFrom( ""// no comment""
+)zchar[ 42
+// 50% %s
+//	t
+] A `it's`, // " ++ [128512]%N ++ runes_of_ascii " emoji
+string len , } options { Pad =false ;
+}
+
+")).
+Eval vm_compute in ("<<<M956>>>" ++ check (runes_of_ascii "MetaData trueish
+    { Z9_ rootA
+    , }MetaData x_y_z {f32 zchar ,
+    options1 asx`tab	here` ,	float u8x
+    // `tick` ""quote"" 'q'
+    ,
+    string_ trueish,
+leftPad trueish, }
+")).
+Eval vm_compute in ("<<<M1000>>>" ++ check (runes_of_ascii "// packet A { u8 x, }
+packet a1 { }//
+packet
+charz
+    { @calculatedFrom(""\" ++ [233]%N ++ runes_of_ascii """
+    )@tag( 65535 ) @calculatedFrom( ""abc"") repeat
+//	t
+//
+crc Z9_ , } root packet u8x {// " ++ [27880; 37322]%N ++ runes_of_ascii "
+}")).
+Eval vm_compute in ("<<<M3757>>>" ++ check (runes_of_ascii "
+packet 
+MetaDataX { @leftPad ( // a // b
+
+'0') 
+u @lengthOf( 
+MetaDataX
+    )
+	`say ""hi""`
+,	}
+
+    MetaData
+BodyLength 
+{ asx x_y_z
+
+    `" ++ [233]%N ++ runes_of_ascii "` ,
+uint64
+u128,  }")).
+Eval vm_compute in ("<<<M1837>>>" ++ check (runes_of_ascii "options { } packet Packet{char[] i64_ ,
+@tag(
+    255) match
+crc as i8i8{@leftpad""{,}"" : trueish """" : Pad , ""a\\"" :
+Foo ,
+    1 :packetx
+, """ ++ [128512]%N ++ runes_of_ascii """ : trueish , } , }")).
+Eval vm_compute in ("<<<M1286>>>" ++ check (runes_of_ascii "
+root packet asx{
+u64 T
+//
+// " ++ [27880; 37322]%N ++ runes_of_ascii "
+`doc`
+    ,
+} MetaData Header // trailing space 
+{ pack
+    o`` ,	} MetaData repeatCount {pack  roots
+    `" ++ [233]%N ++ runes_of_ascii "`,
+    // c
+    }
+")).
+Eval vm_compute in ("<<<M1698>>>" ++ check (runes_of_ascii "options { } packet Packet{char[] i64_ ,
+@tag(
+    255) match
+crc crc as i8i8{""{,}"" : trueish """" : Pad , ""a\\"" :
+Foo ,
+    1 :packetx
+, """ ++ [128512]%N ++ runes_of_ascii """ : trueish , } , }")).
+Eval vm_compute in ("<<<M2390>>>" ++ check (runes_of_ascii "
+MetaDataX packet
+{
+    @leftPad
+( // a // b
+'0'
+) i8 u @lengthOf(
+MetaDataX
+    ) `say ""hi""` ,	} MetaData BodyLength {
+    asx
+x_y_z `" ++ [233]%N ++ runes_of_ascii "`
+, uint64 u128 , }
+")).
+Eval vm_compute in ("<<<M1818>>>" ++ check (runes_of_ascii "options { } packet Packet{char[] i64_ ,
+@tag(
+    255) match
+crc as i8i8{""{,}"" : trueish """" : Pad , ""a\\"" :
+Foo ,
+    1 :packetx
+, """ ++ [128512]%N ++ runes_of_ascii """ : trueish , } , , }")).
+Eval vm_compute in ("<<<M1834>>>" ++ check (runes_of_ascii "options { } packet Packet{char[] i64_ ,
+@tag(
+    255) m~atch
+crc as i8i8{""{,}"" : trueish """" : Pad , ""a\\"" :
+Foo ,
+    1 :packetx
+, """ ++ [128512]%N ++ runes_of_ascii """ : trueish , } , }")).
+Eval vm_compute in ("<<<M1739>>>" ++ check (runes_of_ascii "options { } packet Packet{char[] i64_ ,
+@tag(
+    255) match
+crc as i8i8{""{,}"" : trueish """" Pad : , ""a\\"" :
+Foo ,
+    1 :packetx
+, """ ++ [128512]%N ++ runes_of_ascii """ : trueish , } , }")).
+Eval vm_compute in ("<<<M1643>>>" ++ check (runes_of_ascii "options {  packet Packet{char[] i64_ ,
+@tag(
+    255) match
+crc as i8i8{""{,}"" : trueish """" : Pad , ""a\\"" :
+Foo ,
+    1 :packetx
+, """ ++ [128512]%N ++ runes_of_ascii """ : trueish , } , }")).
+Eval vm_compute in ("<<<M1702>>>" ++ check (runes_of_ascii "options { } packet Packet{char[] i64_ ,
+@tag(
+    255) match
+crc  i8i8{""{,}"" : trueish """" : Pad , ""a\\"" :
+Foo ,
+    1 :packetx
+, """ ++ [128512]%N ++ runes_of_ascii """ : trueish , } , }")).
+Eval vm_compute in ("<<<M1667>>>" ++ check (runes_of_ascii "options { } packet Packet{char[]  ,
+@tag(
+    255) match
+crc as i8i8{""{,}"" : trueish """" : Pad , ""a\\"" :
+Foo ,
+    1 :packetx
+, """ ++ [128512]%N ++ runes_of_ascii """ : trueish , } , }")).
+Eval vm_compute in ("<<<M413>>>" ++ check (runes_of_ascii "
+options	{ metadata
+= // trailing space 
+'0' }
+root  packet MetaDataX	{// c
+i8 // " ++ [27880; 37322]%N ++ runes_of_ascii "
+string_, @rightPad
+( '0') repeat lengthOf lengthOf
+, }
+//
+")).
+Eval vm_compute in ("<<<M1062>>>" ++ check (runes_of_ascii "root
+    // c
+    packet options1
+    {//	t
+u8x { char[ // c
+007 ] stringy @calculatedFrom(
+    ""// no comment""
+) `100% of %d`
+    , }  ,
+    }")).
+Eval vm_compute in ("<<<M2423>>>" ++ check (runes_of_ascii "
+packet MetaDataX
+{
+    @leftPad
+( // a // b
+'0'
+) i8 u @lengthOf(
+MetaDataX
+    ) `say ""hi""` ,	} MetaData BodyLength {
+    asx
+x_y_z `" ++ [233]%N ++ runes_of_ascii "`")).
+Eval vm_compute in ("<<<M3438>>>" ++ check (runes_of_ascii "root packet // c1
+P // c2
+{ repeat // c4a
+  // c4b
+char // c5a
+  // c5b
+cs
+    // c6
+, u8 // c8
+x
+    // c9
+,
+    // c10
+}
+    // c11
+")).
+Eval vm_compute in ("<<<M1791>>>" ++ check (runes_of_ascii "options { } packet Packet{char[] i64_ ,
+@tag(
+    255) match
+crc as i8i8{""{,}"" : trueish """" : Pad , ""a\\"" :
+Foo ,
+    1 :packetx")).
+Eval vm_compute in ("<<<M3309>>>" ++ check (runes_of_ascii "MetaData metadata { } MetaData rootA { i8 i64_ , roots options1 `a\` , lengthOf Header , Z9_ Foo , int16 BodyLength , }
+// c
+")).
+Eval vm_compute in ("<<<M3288>>>" ++ check (runes_of_ascii "MetaData metadata { } MetaData rootA { i8 i64_ , roots options1 `a\` , // c
+lengthOf Header , Z9_ Foo , int16 BodyLength , }")).
+Eval vm_compute in ("<<<M3455>>>" ++ check (runes_of_ascii "packet B {
+    u8 a,
+}
+root packet P {
+    u8 K,
+    u64 L @lengthOf(Body),
+    match K as Body {
+        1 : B,
+    },
+}
+")).
+Eval vm_compute in ("<<<M4060>>>" ++ check (runes_of_ascii "packet  stringy
+
+{  @calculatedFrom(
+
+    ""1""
+
+)	zchar[
+	0
+
+] body @calculatedFrom(
+
+    ""a\""b""  )
+
+    ,  }
+
+")).
+Eval vm_compute in ("<<<M3000>>>" ++ check (runes_of_ascii "packet A {
   match k as n {
-    [""a"", ""bb"", 007, ""d"", ""e""] : B
+    [""a"", ""bb"", ""c c"", ""d"", ""e"", ""f"", ""g"", ""h"", ""i"", ""j"", ""k""] : B,
     2 : C
   },
 }")).
-Eval vm_compute in ("<<<M816>>>" ++ check (runes_of_ascii "packet A {
+Eval vm_compute in ("<<<M3327>>>" ++ check (runes_of_ascii "MetaData float { uint8 BodyLength
+// c
+, } MetaData charz { float32 trueish `a\` , i16 metadata `say ""hi""` , }")).
+Eval vm_compute in ("<<<M4335>>>" ++ check (runes_of_ascii "packet	A
+	{
+    match
+
+k
+as n{ [
+
+1 ,
+22,
+007 ,
+	4	,  5  , 
+66
+,
+	7
+	,8 ,
+	9 ,
+    10
+]
+
+:
+B ,
+2 :	C  },
+}")).
+Eval vm_compute in ("<<<M2988>>>" ++ check (runes_of_ascii "packet A {
+  match k as n {
+    [""a"", ""bb"", ""c c"", ""d"", ""e"", ""f"", ""g"", ""h"", ""i"", ""j""] : B
+    2 : C
+  },
+}")).
+Eval vm_compute in ("<<<M377>>>" ++ check (runes_of_ascii "  options // a // b
+{ Logon = char[] ; } options{BodyLength
+    = ' ' ;tag = 3} // `tick` ""quote"" 'q'")).
+Eval vm_compute in ("<<<M4402>>>" ++ check (runes_of_ascii "  packet 
+A{
+	match k
+as 
+n  {  [""a"" ,  ""bb""
+    ,""c c""
+    ,""d"" ]
+:B
+
+    ,
+	2
+:	C
+    }
+,
+	} ")).
+Eval vm_compute in ("<<<M3228>>>" ++ check (runes_of_ascii "// top
+MetaData // c0
+zchar // c1
+{ // c2
+zchar[ // c3
+3 // c4
+] // c5
+Pad // c6
+, // c7
+} // c8
+")).
+Eval vm_compute in ("<<<M4171>>>" ++ check (runes_of_ascii "
+packet A {  Inner
+
+{
+u8
+	x 
+`a
+    b
+  c`, Deep 
+{ u8	y `a
+    b
+  c`
+	,
+	}
+
+    ,}
+
+,	}
+")).
+Eval vm_compute in ("<<<M2948>>>" ++ check (runes_of_ascii "packet A {
+  match k as n {
+    [""a"", ""bb"", ""c c"", ""d"", ""e"", ""f"", ""g""] : B,
+    2 : C
+  },
+}")).
+Eval vm_compute in ("<<<M2288>>>" ++ check (runes_of_ascii "MetaData " ++ [252]%N ++ runes_of_ascii "ber {string x `// not a comment` , string
+i64_ // trailing space 
+`a\` ,
+    }
+")).
+Eval vm_compute in ("<<<M1>>>" ++ check (runes_of_ascii "root packet metadata //
+{ } options{ Logon =/// triple
+false
+; o
+    =
+    '\x00' ;
+}
+")).
+Eval vm_compute in ("<<<M3442>>>" ++ check (runes_of_ascii "options 
+{
+LittleEndian 
+= 
+true;}	root
+packet  P {	repeat 
+char
+    cs
+	,
+u8  x,
+
+}
+")).
+Eval vm_compute in ("<<<M419>>>" ++ check (runes_of_ascii "MetaData	charz { char crc , options1 body	,zchar[255 ]
+    A ,
+} packet Packet
+{}
+")).
+Eval vm_compute in ("<<<M2224>>>" ++ check (runes_of_ascii "MetaData _x { x `// not a comment` , string
+i64_ // trailing space 
+`a\` ,
+    }
+")).
+Eval vm_compute in ("<<<M851>>>" ++ check (runes_of_ascii "packet u8x
+// 50% %s
+//
+{ // 50% %s
+zchar[ 007 ]BodyLength // 50% %s
+,
+    }
+
+")).
+Eval vm_compute in ("<<<M989>>>" ++ check (runes_of_ascii "options {// " ++ [27880; 37322]%N ++ runes_of_ascii "
+zchar = ""a\""b""	; metadata= 65535	}options{ i64_
+    = 0 //x
+;}
+")).
+Eval vm_compute in ("<<<M2924>>>" ++ check (runes_of_ascii "packet A {
   match k as n {
     [1, ""bb"", 007, ""d"", 5] : B,
     2 : C
   },
 }")).
-Eval vm_compute in ("<<<M1098>>>" ++ check (runes_of_ascii "packet A {
+Eval vm_compute in ("<<<M3661>>>" ++ check (runes_of_ascii "packet A {
     match k as n {
-        1 : B // c
-        , // d
+        [1, ""bb""] : B,
+        2 : C,
     },
 }")).
-Eval vm_compute in ("<<<M1315>>>" ++ check (runes_of_ascii "MetaData _x { zchar[ // c
-4294967296 ] lengthOf `// not a comment` , }")).
-Eval vm_compute in ("<<<M568>>>" ++ check (runes_of_ascii "options
+Eval vm_compute in ("<<<M3680>>>" ++ check (runes_of_ascii "
+MetaData
+    u {i64  pack  //
+`{ , }`	,
+	T	tag
+	`" ++ [28040; 24687; 31867; 22411]%N ++ runes_of_ascii "`	,crc  int , }
+")).
+Eval vm_compute in ("<<<M2984>>>" ++ check (runes_of_ascii "packet A { Inner { match k as n { [1,22,007,4,5,66,7,8,9] : B, }, }, }")).
+Eval vm_compute in ("<<<M3406>>>" ++ check (runes_of_ascii "packet o { // c
+@tag( 4294967296 ) options1 @lengthOf( u8x ) `" ++ [233]%N ++ runes_of_ascii "` , }")).
+Eval vm_compute in ("<<<M2899>>>" ++ check (runes_of_ascii "packet A {
+  match k as n {
+    [1, ""bb"", 007] : B
+    2 : C
+  },
+}")).
+Eval vm_compute in ("<<<M2887>>>" ++ check (runes_of_ascii "packet A {
+  match k as n {
+    [""a"", ""bb""] : B,
+    2 : C
+  },
+}")).
+Eval vm_compute in ("<<<M1001>>>" ++ check (runes_of_ascii "
+options
+    { msg_type = false Foo
+    = zchar[ 42] ;
+    }
+")).
+Eval vm_compute in ("<<<M4027>>>" ++ check (runes_of_ascii "packet	i8i8  {@leftPad
+	('\x00'	)
+trueish
+	packetx
+    ,
+}")).
+Eval vm_compute in ("<<<M2880>>>" ++ check (runes_of_ascii "packet A {
+  match k as n {
+    [1] : B,
+    2 : C
+  },
+}")).
+Eval vm_compute in ("<<<M823>>>" ++ check (runes_of_ascii "MetaData packetx
+    { char[00 // a // b
+] lengthOf ,}")).
+Eval vm_compute in ("<<<M2294>>>" ++ check (runes_of_ascii "
+MetaData Pad Pad{
+u32 rootA `line1
+line2` ,
+    }
+")).
+Eval vm_compute in ("<<<M2340>>>" ++ check (runes_of_ascii "
+MetaData Pad{
+u32 % rootA `line1
+line2` ,
+    }
+")).
+Eval vm_compute in ("<<<M4368>>>" ++ check (runes_of_ascii "packet Z9_ {
+    @lengthOf(a1)
+    i32 stringy,
+}")).
+Eval vm_compute in ("<<<M4474>>>" ++ check (runes_of_ascii "packet	A 
 {
-matchKey = 42/// triple
-x='0' ;
-// packet A { u8 x, }
-/")).
-Eval vm_compute in ("<<<M1747>>>" ++ check (runes_of_ascii "packet A {
-    B {
-        // a
-        u8 x,// b
-    },// d
-}")).
-Eval vm_compute in ("<<<M615>>>" ++ check (runes_of_ascii "MetaData
-    // trailing space 
-    matchKey
-{ u64 chars")).
-Eval vm_compute in ("<<<M1959>>>" ++ check (runes_of_ascii "packet x_y_z {
-    i8 As @calculatedFrom(""a	b""),
-}")).
-Eval vm_compute in ("<<<M932>>>" ++ check (runes_of_ascii "MetaData M {
-    u8 x `
-`,
-    T t `
-`,
-}")).
-Eval vm_compute in ("<<<M1982>>>" ++ check (runes_of_ascii "// " ++ [128512]%N ++ runes_of_ascii " emoji
-packet roots {
-}// @lengthOf(")).
-Eval vm_compute in ("<<<M762>>>" ++ check (runes_of_ascii "false , @calculatedFrom( ""abc"" [ =")).
-Eval vm_compute in ("<<<M1550>>>" ++ check (runes_of_ascii "
-options
-// " ++ [128512]%N ++ runes_of_ascii " emoji
-    	{ }
 
+    u8	x
+
+    `a
+b` ,
+    }
 ")).
-Eval vm_compute in ("<<<M1504>>>" ++ check (runes_of_ascii "
-options
+Eval vm_compute in ("<<<M1228>>>" ++ check (runes_of_ascii "MetaData
+zchar {u16
+T`// not a comment`	, }
+")).
+Eval vm_compute in ("<<<M1070>>>" ++ check (runes_of_ascii "
+packet float {
+    repeat
+u16 packetx	,}
+")).
+Eval vm_compute in ("<<<M2607>>>" ++ check (runes_of_ascii "packet A { x @calculatedFrom(""c"") `d`, }")).
+Eval vm_compute in ("<<<M833>>>" ++ check (runes_of_ascii "root packet  Z9_{	repeat body`doc`, }
+")).
+Eval vm_compute in ("<<<M4177>>>" ++ check (runes_of_ascii "packet
+	A
+{ 
+u8 x 
+`d" ++ [8192]%N ++ runes_of_ascii "`  , // c" ++ [8192]%N ++ runes_of_ascii "
 
-{Packet = char[] 
+} ")).
+Eval vm_compute in ("<<<M2580>>>" ++ check (runes_of_ascii "packet A { repeat x @lengthOf(y), }")).
+Eval vm_compute in ("<<<M4289>>>" ++ check (runes_of_ascii "packet A {
+    u8 x `d 	`,// c 	
 }")).
-Eval vm_compute in ("<<<M114>>>" ++ check (runes_of_ascii "//	t
+Eval vm_compute in ("<<<M2728>>>" ++ check (runes_of_ascii "?" ++ [65533; 127]%N ++ runes_of_ascii "Q" ++ [65533]%N ++ runes_of_ascii "Q" ++ [65533]%N ++ runes_of_ascii "3" ++ [65533; 65533]%N ++ runes_of_ascii "N" ++ [65533; 65533]%N ++ runes_of_ascii "PNmE4" ++ [4; 65533]%N ++ runes_of_ascii "z" ++ [65533; 65533; 1572]%N ++ runes_of_ascii "Q" ++ [65533; 25]%N ++ runes_of_ascii "?" ++ [25; 127; 65533]%N ++ runes_of_ascii "E")).
+Eval vm_compute in ("<<<M3136>>>" ++ check (runes_of_ascii "packet A {
+ u8 x `d" ++ [8202]%N ++ runes_of_ascii "`, // c" ++ [8202]%N ++ runes_of_ascii "
+}")).
+Eval vm_compute in ("<<<M2719>>>" ++ check (runes_of_ascii ", float64 o uint64 false ] [")).
+Eval vm_compute in ("<<<M907>>>" ++ check (runes_of_ascii "options {
+    asx =u8 ;
+}")).
+Eval vm_compute in ("<<<M2780>>>" ++ check (runes_of_ascii "k" ++ [65533]%N ++ runes_of_ascii "h" ++ [65533]%N ++ runes_of_ascii "#E" ++ [5; 65533; 65533]%N ++ runes_of_ascii "l" ++ [65533]%N ++ runes_of_ascii "2" ++ [28]%N ++ runes_of_ascii "$3H" ++ [65533; 1]%N ++ runes_of_ascii "3" ++ [2]%N ++ runes_of_ascii "F7" ++ [65533]%N ++ runes_of_ascii "O6")).
+Eval vm_compute in ("<<<M930>>>" ++ check (runes_of_ascii "packet
+packetx
+    {}
+")).
+Eval vm_compute in ("<<<M2759>>>" ++ check (runes_of_ascii "[ float32 { root root")).
+Eval vm_compute in ("<<<M2312>>>" ++ check (runes_of_ascii "
+MetaData Pad{
+u32")).
+Eval vm_compute in ("<<<M3114>>>" ++ check (runes_of_ascii "packet A {
+}
+// c" ++ [160]%N)).
+Eval vm_compute in ("<<<M3690>>>" ++ check (runes_of_ascii "
 packet
-Logon { } 	 ")).
-Eval vm_compute in ("<<<M1666>>>" ++ check (runes_of_ascii "// packet A { u8 x, }
-")).
-Eval vm_compute in ("<<<M981>>>" ++ check (runes_of_ascii "// c" ++ [12288]%N ++ runes_of_ascii "
-packet A {
-}")).
-Eval vm_compute in ("<<<M1082>>>" ++ check (runes_of_ascii "packet A { // a
- }")).
-Eval vm_compute in ("<<<M751>>>" ++ check (runes_of_ascii "u16 uint16 true")).
-Eval vm_compute in ("<<<M191>>>" ++ check (runes_of_ascii "//
 
-
+A 
+{ 
+} ")).
+Eval vm_compute in ("<<<M3152>>>" ++ check (runes_of_ascii "packet A {
+}// c" ++ [8287]%N)).
+Eval vm_compute in ("<<<M2586>>>" ++ check (runes_of_ascii "packet A { u8 }")).
+Eval vm_compute in ("<<<M2781>>>" ++ check (runes_of_ascii "k'SVG~y<dzlq;")).
+Eval vm_compute in ("<<<M2877>>>" ++ check (runes_of_ascii "uint16 int8")).
+Eval vm_compute in ("<<<M2499>>>" ++ check (runes_of_ascii "@leftPad")).
+Eval vm_compute in ("<<<M4461>>>" ++ check (runes_of_ascii "  // c
 ")).
-Eval vm_compute in ("<<<M734>>>" ++ check ([0]%N)).
+Eval vm_compute in ("<<<M2469>>>" ++ check (runes_of_ascii "true1")).
+Eval vm_compute in ("<<<M941>>>" ++ check (runes_of_ascii "
+ //")).
+Eval vm_compute in ("<<<M609>>>" ++ check (runes_of_ascii " 	 ")).
+Eval vm_compute in ("<<<M9>>>" ++ check (runes_of_ascii "
+")).
+Eval vm_compute in ("<<<M2525>>>" ++ check (runes_of_ascii """")).
